@@ -1,9 +1,10 @@
 (* C11 — export followed by import with SIMPLE MULTIPLEXERS: buses of RoundTripEnum's fragment whose
-   messages may hold one multiplexer signal (top level) with standard children, each child in exactly one
-   group (plain `m<k>` multiplexing; no SG_MUL_VAL_ is written).  No attributes; the multiplexed children
-   carry no description.  The exporter writes a multiplexer's children in (group, position) order and the
-   importer re-sorts all signals of a message by start bit, so the import side is proved for ANY order of
-   the signals (permutation-invariant), and the projections are compared as permutations. *)
+   messages may hold one multiplexer signal (top level) whose children are standard or enum signals, each
+   child in exactly one group (plain `m<k>` multiplexing; no SG_MUL_VAL_ is written); standard and enum
+   signals beside the multiplexer; descriptions everywhere.  No attributes.  The exporter writes a
+   multiplexer's children in (group, position) order - comments and value descriptions follow that order -
+   and the importer re-sorts all signals of a message by start bit, so the import side is proved for ANY
+   order of the signals (permutation-invariant), and the projections are compared as permutations. *)
 From Coq Require Import String Ascii ZArith List Bool Lia Permutation.
 From Coq Require Import ZifyBool.
 From Acme.C10 Require Import DbcDoc BusModel Import Export Bits.
@@ -16,11 +17,11 @@ Open Scope Z_scope.
 Definition is_topb (s : signal) : bool := match s_parent s with None => true | Some _ => false end.
 Definition is_muxb (s : signal) : bool := match s_kind s with KMux => true | _ => false end.
 
-(* a multiplexed child: standard, one group, nothing else *)
-Definition child_ok (mx : signal) (c : signal) : Prop :=
-  s_kind c = KStandard /\ s_parent c = Some (s_id mx) /\ (exists g, s_groups c = [g] /\ 0 <= g < s_gcount mx) /\
-  s_desc c = EmptyString /\ s_startval c = fl_zero /\ s_sendtype c = 0 /\ s_attrs c = [] /\
-  0 < s_size c < 2 ^ 32 /\ 0 <= s_rel c /\ s_rel c + s_size c <= s_gsize mx.
+(* a multiplexed child: a standard or enum signal in exactly one group *)
+Definition child_ok (es : list enum_def) (mx : signal) (c : signal) : Prop :=
+  s_kind c <> KMux /\ s_parent c = Some (s_id mx) /\ (exists g, s_groups c = [g] /\ 0 <= g < s_gcount mx) /\
+  s_startval c = fl_zero /\ s_sendtype c = 0 /\ s_attrs c = [] /\
+  (s_kind c = KStandard -> 0 < s_size c < 2 ^ 32) /\ 0 <= s_rel c /\ s_rel c + sig_size es c <= s_gsize mx.
 Definition grp (c : signal) : Z := match s_groups c with g :: _ => g | [] => 0 end.
 
 (* a top-level signal: as in RoundTripEnum, or the multiplexer *)
@@ -39,11 +40,9 @@ Definition msigs_ok (es : list enum_def) (sigs : list signal) : Prop :=
   NoDup (map s_id sigs) /\ NoDup (map (fun s => clear (s_name s)) sigs) /\
   Forall (top_ok es) (filter is_topb sigs) /\
   (forall a b, In a sigs -> In b sigs -> is_muxb a = true -> is_muxb b = true -> a = b) /\
-  (forall c, In c sigs -> is_topb c = false -> exists mx, In mx sigs /\ is_topb mx = true /\ is_muxb mx = true /\ child_ok mx c) /\
+  (forall c, In c sigs -> is_topb c = false -> exists mx, In mx sigs /\ is_topb mx = true /\ is_muxb mx = true /\ child_ok es mx c) /\
   (forall c c', In c sigs -> In c' sigs -> is_topb c = false -> is_topb c' = false -> c <> c' -> grp c = grp c' ->
-     s_rel c + s_size c <= s_rel c' \/ s_rel c' + s_size c' <= s_rel c) /\
-  (* a message that holds a multiplexer holds standard signals besides it *)
-  (forall mx t, In mx sigs -> is_muxb mx = true -> In t sigs -> is_muxb t = false -> s_kind t = KStandard).
+     s_rel c + sig_size es c <= s_rel c' \/ s_rel c' + sig_size es c' <= s_rel c).
 
 Definition mmessage (es : list enum_def) (node_names : list string) (m : message) : Prop :=
   m_attrs m = [] /\ m_cycle m = 0 /\ m_delay m = 0 /\ m_startdelay m = 0 /\
@@ -72,9 +71,19 @@ Section MuxExport.
     mkdsignal (clear (s_name mx)) true false 0 (u32 (sel_width mx)) (dbc_start_bit (s_rel mx) order) order false
               fl_one fl_zero fl_zero (fl_of_Z (s_gcount mx - 1)) EmptyString recs.
   Definition child_dsig (mx : signal) (sw : Z) (c : signal) : dsignal :=
-    mkdsignal (clear (s_name c)) false true sw (u32 (s_size c))
-              (dbc_start_bit (s_rel mx + sel_width mx + s_rel c) order) order (s_signed c)
-              (s_scale c) (s_offset c) (s_min c) (s_max c) (s_unit c) recs.
+    match s_kind c with
+    | KStandard =>
+        mkdsignal (clear (s_name c)) false true sw (u32 (s_size c))
+                  (dbc_start_bit (s_rel mx + sel_width mx + s_rel c) order) order (s_signed c)
+                  (s_scale c) (s_offset c) (s_min c) (s_max c) (s_unit c) recs
+    | _ =>
+        mkdsignal (clear (s_name c)) false true sw (u32 (enum_size (e_of es c)))
+                  (dbc_start_bit (s_rel mx + sel_width mx + s_rel c) order) order false
+                  fl_one fl_zero fl_zero (fl_of_Z (en_maxindex (e_of es c))) EmptyString recs
+    end.
+
+  Lemma child_dsig_switch : forall mx v c, set_switch v (child_dsig mx 0 c) = child_dsig mx v c.
+  Proof. intros mx v c. unfold child_dsig. destruct (s_kind c); reflexivity. Qed.
 
   Lemma set_last_switch_snoc : forall v l x, set_last_switch v (l ++ [x]) = l ++ [set_switch v x].
   Proof.
@@ -84,17 +93,20 @@ Section MuxExport.
   Qed.
 
   Lemma export_child : forall mx many fuel c cms vs msgs sg L,
-    NoDup (map s_id sigs) -> In mx sigs -> s_parent mx = None -> child_ok mx c ->
+    NoDup (map s_id sigs) -> In mx sigs -> s_parent mx = None -> child_ok es mx c ->
     export_signal es sigs order msgid recs many fuel c (cacc cms vs msgs sg L)
-    = cacc cms vs msgs (sg ++ [child_dsig mx 0 c]) L.
+    = cacc (cms ++ sig_cms msgid c) (vs ++ venc_e es msgid c) msgs (sg ++ [child_dsig mx 0 c]) (enums_step L c).
   Proof.
-    intros mx many fuel c cms vs msgs sg L Hids Hmx Hpm [Hk [Hp [_ [Hd [Hv [Ht [Ha _]]]]]]].
+    intros mx many fuel c cms vs msgs sg L Hids Hmx Hpm [Hk [Hp [_ [Hv [Ht [Ha _]]]]]].
     assert (Habs : abs_start (length sigs) sigs c = s_rel mx + sel_width mx + s_rel c).
     { destruct sigs as [|x r] eqn:Es; [destruct Hmx|]. rewrite <- Es in *.
       replace (length sigs) with (S (length r)) by (rewrite Es; reflexivity).
       cbn [abs_start]. rewrite Hp, (ProofsIds.find_sig_unique sigs mx Hids Hmx), abs_start_top by assumption. reflexivity. }
-    destruct fuel; cbn [export_signal]; rewrite Ha, Hv, Ht, Hp, Hk, Hd, Habs; cbn;
-      unfold cacc, add_sig, child_dsig; cbn; reflexivity.
+    unfold sig_cms, opt_cm, venc_e, child_dsig, enums_step, e_of.
+    destruct fuel; cbn [export_signal]; rewrite Ha, Hv, Ht, Hp, Habs; cbn;
+      destruct (String.eqb (s_desc c) EmptyString);
+      destruct (s_kind c); try (exfalso; apply Hk; reflexivity); cbn;
+      unfold cacc, add_sig, add_comment, add_valenc, evals; cbn; rewrite ?app_nil_r; reflexivity.
   Qed.
 End MuxExport.
 
@@ -105,10 +117,10 @@ Section MuxWalk.
   Hypothesis Hmx : In mx sigs.
   Hypothesis Hpm : s_parent mx = None.
   Let K := children sigs mx.
-  Hypothesis HK : Forall (child_ok mx) K.
+  Hypothesis HK : Forall (child_ok es mx) K.
   Hypothesis HKn : NoDup (map (fun c => clear (s_name c)) K).
 
-  Lemma in_group_grp : forall c id, child_ok mx c -> in_group c id = (id =? grp c).
+  Lemma in_group_grp : forall c id, child_ok es mx c -> in_group c id = (id =? grp c).
   Proof.
     intros c id [_ [_ [[g [Hg _]] _]]]. unfold in_group, grp. rewrite Hg. unfold mem_z. cbn [existsb]. rewrite orb_false_r. reflexivity.
   Qed.
@@ -126,16 +138,19 @@ Section MuxWalk.
     end.
 
   Lemma walk_inner : forall k id l S gmap names cms vs msgs sg L,
-    Forall (child_ok mx) l ->
+    Forall (child_ok es mx) l ->
     (forall cn v, lookup String.eqb cn gmap = Some v -> In cn S) ->
     NoDup (map (fun c => clear (s_name c)) l) ->
     (forall c, In c l -> in_group c id = true -> ~ In (clear (s_name c)) S) ->
     exists gmap' names',
       fold_left (wstep k id) l (cacc cms vs msgs sg L, names, gmap, false, false)
-      = (cacc cms vs msgs (sg ++ map (child_dsig order recs mx (u32 id)) (filter (fun c => in_group c id) l)) L, names', gmap', false, false) /\
+      = (cacc (cms ++ flat_map (sig_cms msgid) (filter (fun c => in_group c id) l))
+              (vs ++ flat_map (venc_e es msgid) (filter (fun c => in_group c id) l)) msgs
+              (sg ++ map (child_dsig es order recs mx (u32 id)) (filter (fun c => in_group c id) l))
+              (fold_left enums_step (filter (fun c => in_group c id) l) L), names', gmap', false, false) /\
       (forall cn v, lookup String.eqb cn gmap' = Some v -> In cn (S ++ map (fun c => clear (s_name c)) (filter (fun c => in_group c id) l))).
   Proof.
-    intros k id l. induction l as [|c r IH]; intros S gmap names cms vs msgs sg L Hl HG Hnd HS; cbn [fold_left filter map].
+    intros k id l. induction l as [|c r IH]; intros S gmap names cms vs msgs sg L Hl HG Hnd HS; cbn [fold_left filter map flat_map].
     - exists gmap, names. rewrite !app_nil_r. split; [reflexivity|exact HG].
     - inversion Hl as [|? ? Hc Hr]; subst. cbn [map] in Hnd. inversion Hnd as [|? ? Hni Hndr]; subst.
       unfold wstep at 2. destruct (in_group c id) eqn:Eg; cbn [negb].
@@ -143,14 +158,17 @@ Section MuxWalk.
         { destruct (lookup String.eqb (clear (s_name c)) gmap) as [v|] eqn:El; [|reflexivity].
           exfalso. apply (HS c (or_introl eq_refl) Eg). eapply HG. exact El. }
         rewrite Hnone. rewrite (export_child es sigs order msgid recs mx many k c) by assumption.
-        assert (Hk : s_kind c = KStandard) by (destruct Hc as [Hk _]; exact Hk). rewrite Hk. cbn [orb].
-        replace (set_sigs (set_last_switch (u32 id) (ea_sigs (cacc cms vs msgs (sg ++ [child_dsig order recs mx 0 c]) L)))
-                          (cacc cms vs msgs (sg ++ [child_dsig order recs mx 0 c]) L))
-          with (cacc cms vs msgs (sg ++ [child_dsig order recs mx (u32 id) c]) L)
+        assert (Hk : match s_kind c with KMux => true | _ => false end = false).
+        { destruct Hc as [Hk _]. destruct (s_kind c); try reflexivity. exfalso. apply Hk. reflexivity. }
+        rewrite Hk. cbn [orb].
+        replace (set_sigs (set_last_switch (u32 id) (ea_sigs (cacc (cms ++ sig_cms msgid c) (vs ++ venc_e es msgid c) msgs (sg ++ [child_dsig es order recs mx 0 c]) (enums_step L c))))
+                          (cacc (cms ++ sig_cms msgid c) (vs ++ venc_e es msgid c) msgs (sg ++ [child_dsig es order recs mx 0 c]) (enums_step L c)))
+          with (cacc (cms ++ sig_cms msgid c) (vs ++ venc_e es msgid c) msgs (sg ++ [child_dsig es order recs mx (u32 id) c]) (enums_step L c))
           by (unfold cacc, set_sigs; cbn [ea_sigs ea_comments ea_attrs ea_attrdefs ea_attrvals ea_valencs ea_extmuxes ea_messages ea_names ea_enums];
-              rewrite set_last_switch_snoc; reflexivity).
-        destruct (IH (S ++ [clear (s_name c)]) ((clear (s_name c), [id]) :: gmap) (names ++ [clear (s_name c)]) cms vs msgs
-                     (sg ++ [child_dsig order recs mx (u32 id) c]) L Hr) as [gmap' [names' [E1 E2]]].
+              rewrite set_last_switch_snoc, child_dsig_switch; reflexivity).
+        destruct (IH (S ++ [clear (s_name c)]) ((clear (s_name c), [id]) :: gmap) (names ++ [clear (s_name c)])
+                     (cms ++ sig_cms msgid c) (vs ++ venc_e es msgid c) msgs
+                     (sg ++ [child_dsig es order recs mx (u32 id) c]) (enums_step L c) Hr) as [gmap' [names' [E1 E2]]].
         * intros cn v Hlk. cbn [lookup] in Hlk. destruct (String.eqb cn (clear (s_name c))) eqn:E.
           -- apply String.eqb_eq in E. subst. apply in_or_app. right. left. reflexivity.
           -- apply in_or_app. left. eapply HG. exact Hlk.
@@ -159,13 +177,14 @@ Section MuxWalk.
           -- apply (HS c' (or_intror Hc') Hg' Hin).
           -- apply Hni. rewrite Hin. apply (in_map (fun c => clear (s_name c))). assumption.
         * exists gmap', names'. split.
-          -- rewrite E1. cbn [map]. rewrite <- app_assoc. reflexivity.
+          -- rewrite E1. cbn [map flat_map fold_left]. rewrite <- !app_assoc. reflexivity.
           -- intros cn v Hlk. specialize (E2 cn v Hlk). cbn [map]. rewrite <- app_assoc in E2. exact E2.
       + apply IH; try assumption. intros c' Hc'. apply HS. right. assumption.
   Qed.
 
+  Definition wall (ids : list Z) : list signal := flat_map (fun id => filter (fun c => in_group c id) K) ids.
   Definition wsigs (ids : list Z) : list dsignal :=
-    flat_map (fun id => map (child_dsig order recs mx (u32 id)) (filter (fun c => in_group c id) K)) ids.
+    flat_map (fun id => map (child_dsig es order recs mx (u32 id)) (filter (fun c => in_group c id) K)) ids.
 
   Lemma walk_outer : forall k ids S gmap names cms vs msgs sg L,
     NoDup ids ->
@@ -173,26 +192,37 @@ Section MuxWalk.
     (forall c, In c K -> In (clear (s_name c)) S -> ~ In (grp c) ids) ->
     exists gmap' names',
       fold_left (fun st id => fold_left (wstep k id) K st) ids (cacc cms vs msgs sg L, names, gmap, false, false)
-      = (cacc cms vs msgs (sg ++ wsigs ids) L, names', gmap', false, false).
+      = (cacc (cms ++ flat_map (sig_cms msgid) (wall ids)) (vs ++ flat_map (venc_e es msgid) (wall ids)) msgs (sg ++ wsigs ids)
+              (fold_left enums_step (wall ids) L), names', gmap', false, false).
   Proof.
-    intros k ids. induction ids as [|id r IH]; intros S gmap names cms vs msgs sg L Hnd HG HS; cbn [fold_left wsigs flat_map].
-    - exists gmap, names. rewrite app_nil_r. reflexivity.
+    intros k ids. induction ids as [|id r IH]; intros S gmap names cms vs msgs sg L Hnd HG HS; cbn [fold_left wsigs wall flat_map].
+    - exists gmap, names. rewrite !app_nil_r. reflexivity.
     - inversion Hnd as [|? ? Hni Hr]; subst.
       destruct (walk_inner k id K S gmap names cms vs msgs sg L HK HG HKn) as [gmap1 [names1 [E1 E2]]].
       { intros c Hc Hg Hin. apply (HS c Hc Hin). left. rewrite (in_group_grp c id) in Hg by (rewrite Forall_forall in HK; apply HK; assumption).
         apply Z.eqb_eq in Hg. exact Hg. }
       rewrite E1.
-      destruct (IH (S ++ map (fun c => clear (s_name c)) (filter (fun c => in_group c id) K)) gmap1 names1 cms vs msgs
-                   (sg ++ map (child_dsig order recs mx (u32 id)) (filter (fun c => in_group c id) K)) L Hr E2) as [gmap' [names' E]].
+      destruct (IH (S ++ map (fun c => clear (s_name c)) (filter (fun c => in_group c id) K)) gmap1 names1
+                   (cms ++ flat_map (sig_cms msgid) (filter (fun c => in_group c id) K))
+                   (vs ++ flat_map (venc_e es msgid) (filter (fun c => in_group c id) K)) msgs
+                   (sg ++ map (child_dsig es order recs mx (u32 id)) (filter (fun c => in_group c id) K))
+                   (fold_left enums_step (filter (fun c => in_group c id) K) L) Hr E2) as [gmap' [names' E]].
       { intros c Hc Hin Hg. apply in_app_or in Hin. destruct Hin as [Hin|Hin].
         - apply (HS c Hc Hin). right. assumption.
         - apply in_map_iff in Hin. destruct Hin as [c' [Hn Hc']]. apply filter_In in Hc'. destruct Hc' as [Hc'K Hg'].
           assert (c' = c) by (apply (NoDup_map_inj (fun c => clear (s_name c)) K); assumption). subst c'.
           rewrite (in_group_grp c id) in Hg' by (rewrite Forall_forall in HK; apply HK; assumption).
           apply Z.eqb_eq in Hg'. apply Hni. rewrite Hg'. exact Hg. }
-      exists gmap', names'. rewrite E. unfold wsigs. rewrite <- app_assoc. reflexivity.
+      exists gmap', names'. rewrite E. unfold wsigs, wall. rewrite !flat_map_app, fold_left_app, <- !app_assoc. reflexivity.
   Qed.
 End MuxWalk.
+
+(* the signals of a message in export order: the top-level signals in list order, the multiplexer followed by
+   its children in (group, position) order *)
+Definition walk_of (sigs : list signal) (t : signal) : list signal :=
+  flat_map (fun id => filter (fun c => in_group c id) (children sigs t)) (zrange 0 (Z.to_nat (s_gcount t))).
+Definition tx (sigs : list signal) (t : signal) : list signal := t :: (if is_muxb t then walk_of sigs t else []).
+Definition SX (m : message) : list signal := flat_map (tx (m_signals m)) (filter is_topb (m_signals m)).
 
 Lemma zrange_nodup : forall n from, NoDup (zrange from n).
 Proof.
@@ -204,27 +234,31 @@ Qed.
 (* the signals a top-level signal contributes to BO_ *)
 Definition tdsigs (es : list enum_def) (sigs : list signal) (order : byte_order) (recs : list string) (s : signal) : list dsignal :=
   match s_kind s with
-  | KMux => mux_dsig order recs s :: wsigs sigs order recs s (zrange 0 (Z.to_nat (s_gcount s)))
+  | KMux => mux_dsig order recs s :: wsigs es sigs order recs s (zrange 0 (Z.to_nat (s_gcount s)))
   | _ => [dsig_e es order recs s]
   end.
 
-Definition kids_ok (sigs : list signal) (mx : signal) : Prop :=
-  Forall (child_ok mx) (children sigs mx) /\ NoDup (map (fun c => clear (s_name c)) (children sigs mx)).
+Definition kids_ok (es : list enum_def) (sigs : list signal) (mx : signal) : Prop :=
+  Forall (child_ok es mx) (children sigs mx) /\ NoDup (map (fun c => clear (s_name c)) (children sigs mx)).
 
 Lemma export_top : forall es sigs order msgid recs k s cms vs msgs sg L,
-  NoDup (map s_id sigs) -> In s sigs -> top_ok es s -> (is_muxb s = true -> kids_ok sigs s) ->
+  NoDup (map s_id sigs) -> In s sigs -> top_ok es s -> (is_muxb s = true -> kids_ok es sigs s) ->
   export_signal es sigs order msgid recs false (S k) s (cacc cms vs msgs sg L)
-  = cacc (cms ++ sig_cms msgid s) (vs ++ venc_e es msgid s) msgs (sg ++ tdsigs es sigs order recs s) (enums_step L s).
+  = cacc (cms ++ flat_map (sig_cms msgid) (tx sigs s)) (vs ++ flat_map (venc_e es msgid) (tx sigs s)) msgs
+         (sg ++ tdsigs es sigs order recs s) (fold_left enums_step (tx sigs s) L).
 Proof.
   intros es sigs order msgid recs k s cms vs msgs sg L Hids Hin Htop Hkids.
   destruct (s_kind s) eqn:Ek.
-  - unfold tdsigs. rewrite Ek. apply export_signal_e. destruct Htop as [H1 [H2 [H3 [H4 [H5 [H6 H7]]]]]]. rewrite Ek in H7.
+  - unfold tdsigs, tx, is_muxb. rewrite Ek. cbn [flat_map fold_left]. rewrite !app_nil_r. apply export_signal_e.
+    destruct Htop as [H1 [H2 [H3 [H4 [H5 [H6 H7]]]]]]. rewrite Ek in H7.
     repeat split; try assumption. rewrite Ek. assumption.
-  - unfold tdsigs. rewrite Ek. apply export_signal_e. destruct Htop as [H1 [H2 [H3 [H4 [H5 [H6 H7]]]]]].
+  - unfold tdsigs, tx, is_muxb. rewrite Ek. cbn [flat_map fold_left]. rewrite !app_nil_r. apply export_signal_e.
+    destruct Htop as [H1 [H2 [H3 [H4 [H5 [H6 H7]]]]]].
     repeat split; try assumption. rewrite Ek. exact I.
   - destruct Htop as [Hp [Hg [Hv [Ht [Ha [Hr Hm]]]]]]. rewrite Ek in Hm.
     destruct (Hkids ltac:(unfold is_muxb; rewrite Ek; reflexivity)) as [HK HKn].
-    unfold sig_cms, opt_cm, venc_e, enums_step, tdsigs. rewrite Ek. rewrite app_nil_r.
+    unfold tdsigs, tx, is_muxb. rewrite Ek. cbn [flat_map fold_left].
+    unfold sig_cms at 1, opt_cm, venc_e at 1, enums_step at 2. rewrite Ek. cbn [app].
     cbn [export_signal]. rewrite Ha, Hv, Ht, Hp, Ek. cbn [fl_is_zero fm fl_zero Z.eqb app fold_left sort_attrs sort_by fold_right orb].
     rewrite abs_start_top by assumption.
     assert (Hcm : (if String.eqb (s_desc s) EmptyString then cacc cms vs msgs sg L
@@ -240,10 +274,13 @@ Proof.
     + intros c _ [].
     + match goal with |- context[fold_left ?f (zrange 0 ?n) ?init] =>
         replace (fold_left f (zrange 0 n) init) with
-          (cacc (cms ++ (if String.eqb (s_desc s) EmptyString then [] else [mkdcomment OSignal (s_desc s) EmptyString msgid (clear (s_name s))]))
-                vs msgs ((sg ++ [mux_dsig order recs s]) ++ wsigs sigs order recs s (zrange 0 (Z.to_nat (s_gcount s)))) L, names', gmap', false, false)
+          (cacc ((cms ++ (if String.eqb (s_desc s) EmptyString then [] else [mkdcomment OSignal (s_desc s) EmptyString msgid (clear (s_name s))]))
+                 ++ flat_map (sig_cms msgid) (wall sigs s (zrange 0 (Z.to_nat (s_gcount s)))))
+                (vs ++ flat_map (venc_e es msgid) (wall sigs s (zrange 0 (Z.to_nat (s_gcount s))))) msgs
+                ((sg ++ [mux_dsig order recs s]) ++ wsigs es sigs order recs s (zrange 0 (Z.to_nat (s_gcount s))))
+                (fold_left enums_step (wall sigs s (zrange 0 (Z.to_nat (s_gcount s)))) L), names', gmap', false, false)
           by (symmetry; exact E) end.
-      cbn [negb andb]. rewrite <- app_assoc. reflexivity.
+      cbn [negb andb]. rewrite <- !app_assoc. reflexivity.
 Qed.
 
 (* ---------------- messages ---------------- *)
@@ -254,7 +291,7 @@ Proof.
   apply filter_In in Hin. apply in_map_iff. exists y. tauto.
 Qed.
 
-Lemma kids_ok_of : forall es sigs mx, msigs_ok es sigs -> In mx sigs -> is_muxb mx = true -> kids_ok sigs mx.
+Lemma kids_ok_of : forall es sigs mx, msigs_ok es sigs -> In mx sigs -> is_muxb mx = true -> kids_ok es sigs mx.
 Proof.
   intros es sigs mx [Hids [Hnm [_ [Huniq [Hch _]]]]] Hmx Hm. unfold kids_ok, children. split.
   - apply Forall_forall. intros c Hc. apply Proofs.In_sort_by in Hc. apply filter_In in Hc. destruct Hc as [Hc Hp].
@@ -278,35 +315,31 @@ Proof.
 Qed.
 
 Lemma export_tops : forall es sigs order msgid recs k l cms vs msgs sg L,
-  NoDup (map s_id sigs) -> (forall s, In s l -> In s sigs /\ top_ok es s /\ (is_muxb s = true -> kids_ok sigs s)) ->
+  NoDup (map s_id sigs) -> (forall s, In s l -> In s sigs /\ top_ok es s /\ (is_muxb s = true -> kids_ok es sigs s)) ->
   fold_left (fun a s => export_signal es sigs order msgid recs false (S k) s a) l (cacc cms vs msgs sg L)
-  = cacc (cms ++ flat_map (sig_cms msgid) l) (vs ++ flat_map (venc_e es msgid) l) msgs
-         (sg ++ flat_map (tdsigs es sigs order recs) l) (fold_left enums_step l L).
+  = cacc (cms ++ flat_map (sig_cms msgid) (flat_map (tx sigs) l)) (vs ++ flat_map (venc_e es msgid) (flat_map (tx sigs) l)) msgs
+         (sg ++ flat_map (tdsigs es sigs order recs) l) (fold_left enums_step (flat_map (tx sigs) l) L).
 Proof.
   intros es sigs order msgid recs k l. induction l as [|s r IH]; intros cms vs msgs sg L Hids H; cbn [fold_left flat_map].
   - rewrite !app_nil_r. reflexivity.
   - destruct (H s (or_introl eq_refl)) as [H1 [H2 H3]]. rewrite export_top by assumption.
-    rewrite IH by (try assumption; intros x Hx; apply H; right; assumption). rewrite <- !app_assoc. reflexivity.
+    rewrite IH by (try assumption; intros x Hx; apply H; right; assumption).
+    rewrite !flat_map_app, fold_left_app, <- !app_assoc. reflexivity.
 Qed.
 
 Definition dmsg_m (es : list enum_def) (m : message) : dmessage :=
   mkdmessage (u32 (m_canid m)) (clear (m_name m)) (u32 (m_size m)) (clear (m_sender m))
              (flat_map (tdsigs es (m_signals m) (m_order m) (recs_out m)) (filter is_topb (m_signals m))).
 
-Lemma child_contrib : forall es msgid sigs, msigs_ok es sigs ->
-  flat_map (sig_cms msgid) (filter is_topb sigs) = flat_map (sig_cms msgid) sigs /\
-  flat_map (venc_e es msgid) (filter is_topb sigs) = flat_map (venc_e es msgid) sigs.
+(* the message / the bus with its signals listed in export order (comments and value descriptions follow it) *)
+Definition xmsg (m : message) : message := set_m_signals m (SX m).
+Definition xbus (b : bus) : bus := set_b_messages b (map xmsg (b_messages b)).
+
+Lemma filter_xmsg : forall (p : string) l,
+  filter (fun m => String.eqb (m_sender m) p) (map xmsg l) = map xmsg (filter (fun m => String.eqb (m_sender m) p) l).
 Proof.
-  intros es msgid sigs [_ [_ [_ [_ [Hch _]]]]].
-  assert (G : forall l, (forall c, In c l -> In c sigs) ->
-            flat_map (sig_cms msgid) (filter is_topb l) = flat_map (sig_cms msgid) l /\
-            flat_map (venc_e es msgid) (filter is_topb l) = flat_map (venc_e es msgid) l).
-  { induction l as [|s r IH]; intros Hl; [split; reflexivity|]. cbn [filter flat_map].
-    destruct (IH (fun c Hc => Hl c (or_intror Hc))) as [I1 I2].
-    destruct (is_topb s) eqn:Et; cbn [flat_map]; [rewrite I1, I2; split; reflexivity|].
-    destruct (Hch s (Hl s (or_introl eq_refl)) Et) as [mx [_ [_ [_ [Hk [_ [_ [Hd _]]]]]]]].
-    rewrite I1, I2. unfold sig_cms at 2, opt_cm, venc_e at 2. rewrite Hd, Hk. cbn. split; reflexivity. }
-  apply G. auto.
+  intros p l. induction l as [|m r IH]; [reflexivity|]. cbn [map filter]. cbn [m_sender xmsg set_m_signals].
+  destruct (String.eqb (m_sender m) p); cbn [map]; rewrite IH; reflexivity.
 Qed.
 
 Lemma mux_count : forall es sigs, msigs_ok es sigs ->
@@ -326,7 +359,7 @@ Qed.
 Lemma export_message_m : forall names es m cms vs msgs sigs0 L,
   mmessage es names m ->
   export_message es m (cacc cms vs msgs sigs0 L)
-  = cacc (cms ++ msg_cms m) (vs ++ msg_vencs es m) (msgs ++ [dmsg_m es m]) [] (fold_left enums_step (filter is_topb (m_signals m)) L).
+  = cacc (cms ++ msg_cms (xmsg m)) (vs ++ msg_vencs es (xmsg m)) (msgs ++ [dmsg_m es m]) [] (fold_left enums_step (SX m) L).
 Proof.
   intros names es m cms vs msgs sigs0 L [Ha [Hc [Hdl [Hsd [Hst [Hid [Hsz [Hms [Hlay _]]]]]]]]].
   pose proof Hms as [Hids [_ [Htops _]]].
@@ -339,12 +372,12 @@ Proof.
                  = cacc (cms ++ opt_cm (m_desc m) (mkdcomment OMessage (m_desc m) EmptyString (u32 (m_canid m)) EmptyString)) vs msgs [] L).
   { unfold opt_cm. destruct (String.eqb (m_desc m) EmptyString); [rewrite app_nil_r|]; reflexivity. }
   rewrite Hacc.
-  destruct (child_contrib es (u32 (m_canid m)) _ Hms) as [C1 C2].
+  unfold msg_cms, msg_vencs, xmsg. cbn [m_desc m_canid m_signals set_m_signals]. unfold SX.
   destruct (m_signals m) as [|s0 r0] eqn:Es.
-  - cbn [filter fold_left length]. unfold msg_cms, msg_vencs, dmsg_m, cacc, add_message. rewrite Es. cbn. rewrite !app_nil_r. reflexivity.
+  - cbn [filter fold_left length flat_map]. unfold dmsg_m, cacc, add_message. rewrite Es. cbn. rewrite !app_nil_r. reflexivity.
   - rewrite <- Es in *. replace (length (m_signals m)) with (S (length r0)) by (rewrite Es; reflexivity).
     rewrite export_tops.
-    + unfold msg_cms, msg_vencs, dmsg_m, cacc, add_message. rewrite C1, C2. cbn. rewrite <- ?app_assoc. reflexivity.
+    + unfold dmsg_m, cacc, add_message. cbn. rewrite <- ?app_assoc. reflexivity.
     + assumption.
     + intros s Hs. pose proof Hs as Hs'. apply filter_In in Hs'. destruct Hs' as [Hin _]. split; [assumption|]. split.
       * rewrite Forall_forall in Htops. apply Htops. assumption.
@@ -354,18 +387,18 @@ Qed.
 Lemma export_messages_m : forall names es l cms vs msgs L,
   Forall (mmessage es names) l ->
   exists L', fold_left (fun a m => export_message es m a) l (cacc cms vs msgs [] L)
-  = cacc (cms ++ flat_map msg_cms l) (vs ++ flat_map (msg_vencs es) l) (msgs ++ map (dmsg_m es) l) [] L'.
+  = cacc (cms ++ flat_map msg_cms (map xmsg l)) (vs ++ flat_map (msg_vencs es) (map xmsg l)) (msgs ++ map (dmsg_m es) l) [] L'.
 Proof.
   intros names es l. induction l as [|m r IH]; intros cms vs msgs L H; cbn [fold_left map flat_map].
   - exists L. rewrite !app_nil_r. reflexivity.
   - inversion H; subst. rewrite (export_message_m names) by assumption.
-    destruct (IH (cms ++ msg_cms m) (vs ++ msg_vencs es m) (msgs ++ [dmsg_m es m]) (fold_left enums_step (filter is_topb (m_signals m)) L)) as [L' E]; [assumption|].
+    destruct (IH (cms ++ msg_cms (xmsg m)) (vs ++ msg_vencs es (xmsg m)) (msgs ++ [dmsg_m es m]) (fold_left enums_step (SX m) L)) as [L' E]; [assumption|].
     exists L'. rewrite E. rewrite <- !app_assoc. reflexivity.
 Qed.
 
 Definition mdoc (b : bus) (L : list Z) : doc :=
   mkdoc (b_name b) (map (fun n => clear (n_name n)) (b_nodes b)) (map (table_of (b_enums b)) L)
-        (map (dmsg_m (b_enums b)) (b_messages b)) (doc_cms b) [] [] [] (bus_vencs b) [].
+        (map (dmsg_m (b_enums b)) (b_messages b)) (doc_cms (xbus b)) [] [] [] (bus_vencs (xbus b)) [].
 
 Lemma export_m : forall b, mbus b -> exists L, export b = mdoc b L.
 Proof.
@@ -382,8 +415,8 @@ Proof.
         fold_left (fun a m => export_message (b_enums b) m a)
                   (filter (fun m => String.eqb (m_sender m) (n_name n)) (b_messages b)) a)
       nodes (cacc cms0 vs0 msgs0 [] L0)
-    = cacc (cms0 ++ flat_map (node_cms b) nodes)
-           (vs0 ++ flat_map (msg_vencs (b_enums b)) (flat_map (fun n => filter (fun m => String.eqb (m_sender m) (n_name n)) (b_messages b)) nodes))
+    = cacc (cms0 ++ flat_map (node_cms (xbus b)) nodes)
+           (vs0 ++ flat_map (msg_vencs (b_enums b)) (map xmsg (flat_map (fun n => filter (fun m => String.eqb (m_sender m) (n_name n)) (b_messages b)) nodes)))
            (msgs0 ++ map (dmsg_m (b_enums b)) (flat_map (fun n => filter (fun m => String.eqb (m_sender m) (n_name n)) (b_messages b)) nodes)) [] L1).
   { induction nodes as [|n r IH]; intros cms0 vs0 msgs0 L0 Hf; cbn [fold_left flat_map map].
     - exists L0. rewrite !app_nil_r. reflexivity.
@@ -399,7 +432,8 @@ Proof.
         [apply Forall_filter; assumption|].
       rewrite E2.
       match goal with |- exists L1, fold_left ?f r (cacc ?c ?v ?m [] ?l) = _ => destruct (IH c v m l Hr) as [L1 E] end.
-      exists L1. refine (eq_trans E _). unfold node_cms. rewrite flat_map_app, map_app, <- !app_assoc. reflexivity. }
+      exists L1. refine (eq_trans E _). unfold node_cms, xbus. cbn [b_messages set_b_messages]. rewrite filter_xmsg.
+      rewrite !map_app, !flat_map_app, <- !app_assoc. reflexivity. }
   assert (H0 : (if String.eqb (b_desc b) EmptyString then mkeacc [] [] [] [] [] [] [] [] [] []
                 else add_comment (mkdcomment OGeneral (b_desc b) EmptyString 0 EmptyString) (mkeacc [] [] [] [] [] [] [] [] [] []))
                = cacc (opt_cm (b_desc b) (mkdcomment OGeneral (b_desc b) EmptyString 0 EmptyString)) [] [] [] []).
@@ -415,18 +449,87 @@ Proof.
   rewrite IH. f_equal. f_equal. f_equal. lia.
 Qed.
 
-Definition std_imp (env : ienv) (msgid id : Z) (ds : dsignal) : signal :=
-  mksignal id (ds_name ds) KStandard 0 None [] (ds_size ds) (ds_signed ds) (ds_factor ds) (ds_offset ds) (ds_min ds) (ds_max ds)
-           (ds_unit ds) 0 0 0 (desc_of key_eqb (msgid, ds_name ds) (ie_sig_desc env)) fl_zero 0 [].
+(* what importSignal returns for the exported form of a standard or enum signal (before it is placed);
+   `ei` is the enum the importer resolved to *)
+Definition rimg (id : Z) (s : signal) (ei : Z) : signal :=
+  match s_kind s with
+  | KStandard => mksignal id (clear (s_name s)) KStandard 0 None [] (s_size s) (s_signed s) (s_scale s) (s_offset s) (s_min s) (s_max s)
+                          (s_unit s) 0 0 0 (s_desc s) fl_zero 0 []
+  | _ => mksignal id (clear (s_name s)) KEnum 0 None [] 0 false fl_one fl_zero fl_zero fl_zero EmptyString ei 0 0 (s_desc s) fl_zero 0 []
+  end.
+Definition EIok (es : list enum_def) (st : istate) (s : signal) (ei : Z) : Prop :=
+  s_kind s = KEnum -> In ei (is_enum_refs st) /\
+    sorted_enum_values (nth_enum (is_enums st) ei) = evals (e_of es s) /\ enum_size (nth_enum (is_enums st) ei) = enum_size (e_of es s).
 
-Lemma import_signal_std : forall env st mpos msgid id ds,
-  lookup key_eqb (msgid, ds_name ds) (ie_sig_enums env) = None -> 0 < ds_size ds ->
-  import_signal env st mpos msgid id ds
-  = Ok (std_imp env msgid id ds, set_sigmap st (((msgid, ds_name ds), (mpos, id)) :: is_sigmap st)).
+Lemma EIok_mono : forall es st st' s ei, ProofsEnum.st_le st st' -> EIok es st s ei -> EIok es st' s ei.
 Proof.
-  intros env st mpos msgid id ds Hl Hs. unfold import_signal. rewrite Hl. unfold import_standard.
-  replace (ds_size ds <=? 0) with false by lia. cbn [bind]. unfold std_imp, desc_of.
-  destruct (lookup key_eqb (msgid, ds_name ds) (ie_sig_desc env)); reflexivity.
+  intros es st st' s ei [_ [_ [L3 L4]]] H Hk. destruct (H Hk) as [H1 [H2 H3]]. rewrite (L3 _ H1). split; [apply L4; assumption|auto].
+Qed.
+
+Lemma rimg_size : forall es st id s ei, s_kind s <> KMux -> EIok es st s ei -> sig_size (is_enums st) (rimg id s ei) = sig_size es s.
+Proof.
+  intros es st id s ei Hk H. unfold rimg, sig_size. destruct (s_kind s) eqn:Ek; cbn [s_kind s_size s_enum]; [reflexivity| |exfalso; apply Hk; reflexivity].
+  destruct (H Ek) as [_ [_ H3]]. exact H3.
+Qed.
+
+Lemma rimg_fields : forall id s ei, s_id (rimg id s ei) = id /\ s_name (rimg id s ei) = clear (s_name s) /\ s_desc (rimg id s ei) = s_desc s /\
+  s_attrs (rimg id s ei) = [] /\ s_startval (rimg id s ei) = fl_zero /\ s_sendtype (rimg id s ei) = 0.
+Proof. intros id s ei. unfold rimg. destruct (s_kind s); cbn; auto 10. Qed.
+
+Definition top0 (s : signal) : signal :=
+  mksignal (s_id s) (s_name s) (s_kind s) 0 None [] (s_size s) (s_signed s) (s_scale s) (s_offset s) (s_min s) (s_max s)
+           (s_unit s) (s_enum s) (s_gcount s) (s_gsize s) (s_desc s) fl_zero 0 [].
+
+Lemma import_signal_ext : forall env st mpos msgid id ds ds',
+  ds_name ds' = ds_name ds -> ds_size ds' = ds_size ds ->
+  (lookup key_eqb (msgid, ds_name ds) (ie_sig_enums env) = None ->
+   ds_signed ds' = ds_signed ds /\ ds_factor ds' = ds_factor ds /\ ds_offset ds' = ds_offset ds /\ ds_min ds' = ds_min ds /\
+   ds_max ds' = ds_max ds /\ ds_unit ds' = ds_unit ds) ->
+  import_signal env st mpos msgid id ds' = import_signal env st mpos msgid id ds.
+Proof.
+  intros env st mpos msgid id ds ds' H1 H2 H3. unfold import_signal. rewrite H1, H2.
+  destruct (lookup key_eqb (msgid, ds_name ds) (ie_sig_enums env)); [reflexivity|].
+  destruct (H3 eq_refl) as [F1 [F2 [F3 [F4 [F5 F6]]]]]. unfold import_standard. rewrite H1, H2, F1, F2, F3, F4, F5, F6. reflexivity.
+Qed.
+
+(* importSignal on any SG_ line that carries the exported data of a standard or enum signal *)
+Lemma import_signal_g : forall es env st0 st mpos msgid id ds s,
+  s_kind s <> KMux -> (s_kind s = KStandard -> 0 < s_size s < 2 ^ 32) -> enum_wf (e_of es s) -> env_sig es env st0 msgid s ->
+  Inv st -> ProofsEnum.st_le st0 st ->
+  ds_name ds = clear (s_name s) ->
+  match s_kind s with
+  | KStandard => ds_size ds = s_size s /\ ds_signed ds = s_signed s /\ ds_factor ds = s_scale s /\ ds_offset ds = s_offset s /\
+                 ds_min ds = s_min s /\ ds_max ds = s_max s /\ ds_unit ds = s_unit s
+  | _ => ds_size ds = enum_size (e_of es s)
+  end ->
+  exists ei st', import_signal env st mpos msgid id ds = Ok (rimg id s ei, st') /\
+    Inv st' /\ ProofsEnum.st_le st st' /\ EIok es st' s ei /\
+    is_sigmap st' = ((msgid, clear (s_name s)), (mpos, id)) :: is_sigmap st.
+Proof.
+  intros es env st0 st mpos msgid id ds s Hk Hsz Hwf Henv HI Hle Hn Hf.
+  assert (Hok : esig_ok es (top0 s)).
+  { unfold esig_ok, top0. cbn. repeat split; try lia. destruct (s_kind s); [apply Hsz; reflexivity|exact I|apply Hk; reflexivity]. }
+  destruct (import_signal_e es env st0 st mpos msgid id LittleEndian [] (top0 s) Hok Hwf Henv HI Hle)
+    as [s' [st' [E [I' [L' [R' [_ [_ [_ [_ [_ [_ Hsm]]]]]]]]]]]].
+  assert (Ex : import_signal env st mpos msgid id ds = import_signal env st mpos msgid id (dsig_e es LittleEndian [] (top0 s))).
+  { destruct Henv as [_ Hlk]. destruct (s_kind s) eqn:Ek; [| |exfalso; apply Hk; reflexivity].
+    - destruct Hf as [F1 [F2 [F3 [F4 [F5 [F6 F7]]]]]]. specialize (Hsz eq_refl).
+      apply import_signal_ext; unfold dsig_e, top0; cbn [s_kind]; rewrite Ek; unfold dsig_of;
+        cbn [ds_name ds_size ds_signed ds_factor ds_offset ds_min ds_max ds_unit s_name s_size s_signed s_scale s_offset s_min s_max s_unit];
+        rewrite ?u32_id by lia; try congruence. intros _. repeat split; congruence.
+    - apply import_signal_ext; unfold dsig_e, top0; cbn [s_kind]; rewrite Ek;
+        cbn [ds_name ds_size ds_signed ds_factor ds_offset ds_min ds_max ds_unit s_name].
+      + assumption.
+      + change (e_of es (mksignal (s_id s) (s_name s) KEnum 0 None [] (s_size s) (s_signed s) (s_scale s) (s_offset s) (s_min s) (s_max s)
+                                 (s_unit s) (s_enum s) (s_gcount s) (s_gsize s) (s_desc s) fl_zero 0 [])) with (e_of es s).
+        rewrite (enum_size_u32 _ Hwf). exact Hf.
+      + intros Hnone. destruct Hlk as [ei0 [Hl _]]. rewrite Hl in Hnone. discriminate Hnone. }
+  unfold Rsig in R'. cbn [s_kind top0] in R'.
+  destruct (s_kind s) eqn:Ek; [| |exfalso; apply Hk; reflexivity].
+  - subst s'. exists 0, st'. split; [rewrite Ex, E; unfold rimg; rewrite Ek; reflexivity|]. split; [assumption|]. split; [assumption|].
+    split; [intros Hc; congruence|exact Hsm].
+  - destruct R' as [ei [-> [R1 [R2 R3]]]]. exists ei, st'. split; [rewrite Ex, E; unfold rimg; rewrite Ek; reflexivity|].
+    split; [assumption|]. split; [assumption|]. split; [intros _; auto|exact Hsm].
 Qed.
 
 (* the filters of one group give back the children *)
@@ -564,8 +667,13 @@ Proof.
     + apply I2; assumption.
 Qed.
 
+Lemma sig_size_std : forall es s, s_kind s = KStandard -> sig_size es s = s_size s.
+Proof. intros es s H. unfold sig_size. rewrite H. reflexivity. Qed.
+Lemma sig_size_enum : forall es s, s_kind s = KEnum -> sig_size es s = enum_size (e_of es s).
+Proof. intros es s H. unfold sig_size, e_of. rewrite H. reflexivity. Qed.
+
 Section MuxImport.
-  Variables (es : list enum_def) (env : ienv) (mpos : nat) (m : message) (mx : signal) (names : list string).
+  Variables (es : list enum_def) (env : ienv) (mpos : nat) (m : message) (mx : signal) (names : list string) (st0 : istate).
   Hypothesis Hmm : mmessage es names m.
   Hypothesis Hmx : In mx (m_signals m).
   Hypothesis Hmxm : is_muxb mx = true.
@@ -575,16 +683,15 @@ Section MuxImport.
   Let recs := recs_out m.
   Let selw := sel_width mx.
   Let mstart := s_rel mx.
-  Hypothesis Henv : forall s, In s sigs -> is_muxb s = false ->
-    lookup key_eqb (msgid, clear (s_name s)) (ie_sig_enums env) = None /\
-    desc_of key_eqb (msgid, clear (s_name s)) (ie_sig_desc env) = s_desc s.
+  Hypothesis Henv : forall s, In s sigs -> is_muxb s = false -> env_sig es env st0 msgid s /\ enum_wf (e_of es s).
   Hypothesis Henvx : desc_of key_eqb (msgid, clear (s_name mx)) (ie_sig_desc env) = s_desc mx.
   Hypothesis Hext : ie_ext_muxes env = [].
+  Hypothesis Hrv0 : ProofsEnum.refs_valid st0.
 
   Definition img (s : signal) : dsignal :=
     if is_muxb s then mux_dsig o recs s
     else if is_topb s then dsig_e es o recs s
-    else child_dsig o recs mx (u32 (grp s)) s.
+    else child_dsig es o recs mx (u32 (grp s)) s.
 
   Let Hms : msigs_ok es sigs. Proof. destruct Hmm as [_ [_ [_ [_ [_ [_ [_ [H _]]]]]]]]. exact H. Qed.
 
@@ -593,39 +700,54 @@ Section MuxImport.
     destruct Hms as [_ [_ [Htops [_ [Hch _]]]]].
     destruct (is_topb mx) eqn:Et.
     - split; [|reflexivity]. rewrite Forall_forall in Htops. apply Htops. apply filter_In. auto.
-    - exfalso. destruct (Hch mx Hmx Et) as [p [_ [_ [_ [Hk _]]]]]. unfold is_muxb in Hmxm. rewrite Hk in Hmxm. discriminate.
+    - exfalso. destruct (Hch mx Hmx Et) as [p [_ [_ [_ [Hk _]]]]]. unfold is_muxb in Hmxm. destruct (s_kind mx); try discriminate. apply Hk. reflexivity.
   Qed.
 
   (* what is known of a signal that is not the multiplexer *)
   Lemma other_sig : forall s, In s sigs -> s <> mx ->
-    is_muxb s = false /\ s_kind s = KStandard /\
-    ((is_topb s = true /\ top_ok es s) \/ (is_topb s = false /\ child_ok mx s)).
+    is_muxb s = false /\ s_kind s <> KMux /\
+    ((is_topb s = true /\ top_ok es s) \/ (is_topb s = false /\ child_ok es mx s)).
   Proof.
-    intros s Hs Hne. destruct Hms as [_ [_ [Htops [Huniq [Hch [_ Hstd]]]]]].
+    intros s Hs Hne. destruct Hms as [_ [_ [Htops [Huniq [Hch _]]]]].
     assert (Hnm : is_muxb s = false).
     { destruct (is_muxb s) eqn:E; [|reflexivity]. exfalso. apply Hne. apply Huniq; assumption. }
-    split; [assumption|]. split; [exact (Hstd mx s Hmx Hmxm Hs Hnm)|].
+    split; [assumption|]. split; [intros Hk; unfold is_muxb in Hnm; rewrite Hk in Hnm; discriminate|].
     destruct (is_topb s) eqn:Et.
     - left. split; [reflexivity|]. rewrite Forall_forall in Htops. apply Htops. apply filter_In. auto.
     - right. split; [reflexivity|]. destruct (Hch s Hs Et) as [p [Hp [_ [Hpm Hok]]]].
       rewrite (Huniq mx p Hmx Hp Hmxm Hpm). exact Hok.
   Qed.
 
+  Lemma other_size : forall s, In s sigs -> s <> mx -> (s_kind s = KStandard -> 0 < s_size s < 2 ^ 32) /\ 0 < sig_size es s < 2 ^ 32.
+  Proof.
+    intros s Hs Hne. destruct (other_sig s Hs Hne) as [Hnm [Hk Hc]]. destruct (Henv s Hs Hnm) as [_ Hwf].
+    assert (Hstd : s_kind s = KStandard -> 0 < s_size s < 2 ^ 32).
+    { destruct Hc as [[_ [_ [_ [_ [_ [_ [_ Hsz]]]]]]]|[_ [_ [_ [_ [_ [_ [_ [Hsz _]]]]]]]]].
+      - intros E. rewrite E in Hsz. exact Hsz.
+      - exact Hsz. }
+    split; [exact Hstd|]. destruct (s_kind s) eqn:Ek.
+    - rewrite (sig_size_std es s Ek). apply Hstd. reflexivity.
+    - rewrite (sig_size_enum es s Ek). pose proof (enum_size_pos (e_of es s)). pose proof (enum_size_u32 _ Hwf) as Hu.
+      unfold u32 in Hu. pose proof (Z.mod_pos_bound (enum_size (e_of es s)) (2 ^ 32) ltac:(lia)). lia.
+    - exfalso. apply Hk. reflexivity.
+  Qed.
+
   (* ---- the first loop: every signal but the switch is imported ---- *)
   Variable mid : Z.
-  Definition ent (p : Z * signal) : subtree * dsignal := ((std_imp env msgid (fst p) (img (snd p)), []), img (snd p)).
+  Definition ent (EI : signal -> Z) (p : Z * signal) : subtree * dsignal := ((rimg (fst p) (snd p) (EI (snd p)), []), img (snd p)).
   Definition childp (p : Z * signal) : bool := negb (is_topb (snd p)).
   Definition plainp (p : Z * signal) : bool := is_topb (snd p) && negb (is_muxb (snd p)).
   Definition last_of (la : Z) (Xl : list (Z * signal)) : Z :=
     fold_left (fun a p => if childp p then (if get_start_bit (img (snd p)) >? a then get_start_bit (img (snd p)) else a) else a) Xl la.
 
   Lemma img_fields : forall s, In s sigs -> s <> mx ->
-    ds_name (img s) = clear (s_name s) /\ ds_size (img s) = s_size s /\ ds_muxed (img s) = negb (is_topb s) /\ ds_muxor (img s) = false.
+    ds_name (img s) = clear (s_name s) /\ ds_size (img s) = sig_size es s /\ ds_muxed (img s) = negb (is_topb s) /\ ds_muxor (img s) = false.
   Proof.
-    intros s Hs Hne. destruct (other_sig s Hs Hne) as [Hnm [Hk Hc]]. unfold img. rewrite Hnm.
-    destruct Hc as [[Ht [_ [_ [_ [_ [_ [_ Hsz]]]]]]]|[Ht [_ [_ [_ [_ [_ [_ [_ [Hsz _]]]]]]]]]]; rewrite Ht; rewrite ?Hk in Hsz.
-    - unfold dsig_e. rewrite Hk. cbn [dsig_of ds_name ds_size ds_muxed ds_muxor negb]. rewrite u32_id by lia. auto.
-    - cbn [child_dsig ds_name ds_size ds_muxed ds_muxor negb]. rewrite u32_id by lia. auto.
+    intros s Hs Hne. destruct (other_sig s Hs Hne) as [Hnm [Hk Hc]]. destruct (other_size s Hs Hne) as [Hstd Hsz]. destruct (Henv s Hs Hnm) as [_ Hwf].
+    unfold img. rewrite Hnm.
+    destruct Hc as [[Ht _]|[Ht _]]; rewrite Ht; unfold dsig_e, child_dsig, dsig_of; destruct (s_kind s) eqn:Ek; try (exfalso; apply Hk; reflexivity);
+      cbn [ds_name ds_size ds_muxed ds_muxor negb];
+      rewrite ?(sig_size_std es s Ek), ?(sig_size_enum es s Ek), ?(enum_size_u32 _ Hwf); rewrite ?u32_id by (specialize (Hstd eq_refl); lia); auto.
   Qed.
 
   Definition f1 (acc : result (istate * list (subtree * dsignal) * list (subtree * dsignal) * Z)) (p : Z * dsignal) :=
@@ -638,17 +760,35 @@ Section MuxImport.
     then Ok (st1, muxed ++ [((s, []), ds)], stds, if sp >? last then sp else last)
     else Ok (st1, muxed, stds ++ [((s, []), ds)], last).
 
+  (* the exported line of a signal carries its data *)
+  Lemma img_data : forall s, In s sigs -> s <> mx ->
+    match s_kind s with
+    | KStandard => ds_size (img s) = s_size s /\ ds_signed (img s) = s_signed s /\ ds_factor (img s) = s_scale s /\ ds_offset (img s) = s_offset s /\
+                   ds_min (img s) = s_min s /\ ds_max (img s) = s_max s /\ ds_unit (img s) = s_unit s
+    | _ => ds_size (img s) = enum_size (e_of es s)
+    end.
+  Proof.
+    intros s Hs Hne. destruct (other_sig s Hs Hne) as [Hnm [Hk Hc]]. destruct (other_size s Hs Hne) as [Hstd _]. destruct (Henv s Hs Hnm) as [_ Hwf].
+    unfold img. rewrite Hnm.
+    destruct (is_topb s); unfold dsig_e, child_dsig, dsig_of; destruct (s_kind s) eqn:Ek; try (exfalso; apply Hk; reflexivity);
+      cbn [ds_size ds_signed ds_factor ds_offset ds_min ds_max ds_unit];
+      rewrite ?(enum_size_u32 _ Hwf); rewrite ?u32_id by (specialize (Hstd eq_refl); lia); auto 10.
+  Qed.
+
   Lemma loop1 : forall Xl st mu sd la,
     (forall p, In p Xl -> In (snd p) sigs /\ (fst p = mid <-> snd p = mx)) -> NoDup (map snd Xl) ->
-    exists st',
+    Inv st -> ProofsEnum.st_le st0 st ->
+    exists st' EI,
       fold_left f1 (map (fun p => (fst p, img (snd p))) Xl) (Ok (st, mu, sd, la))
-      = Ok (st', mu ++ map ent (filter childp Xl), sd ++ map ent (filter plainp Xl), last_of la Xl) /\
-      is_enums st' = is_enums st /\ is_enum_refs st' = is_enum_refs st /\
+      = Ok (st', mu ++ map (ent EI) (filter childp Xl), sd ++ map (ent EI) (filter plainp Xl), last_of la Xl) /\
+      Inv st' /\ ProofsEnum.st_le st st' /\
+      (forall p, In p Xl -> snd p <> mx -> EIok es st' (snd p) (EI (snd p))) /\
       (forall p, In p Xl -> snd p <> mx -> lookup key_eqb (msgid, clear (s_name (snd p))) (is_sigmap st') = Some (mpos, fst p)) /\
       (forall k, (forall p, In p Xl -> k <> (msgid, clear (s_name (snd p)))) -> lookup key_eqb k (is_sigmap st') = lookup key_eqb k (is_sigmap st)).
   Proof.
-    induction Xl as [|[id s] r IH]; intros st mu sd la HX Hnd; cbn [map fold_left filter last_of].
-    - exists st. rewrite !app_nil_r. split; [reflexivity|]. split; [reflexivity|]. split; [reflexivity|]. split; [intros p []|auto].
+    induction Xl as [|[id s] r IH]; intros st mu sd la HX Hnd HI Hle; cbn [map fold_left filter last_of].
+    - exists st, (fun _ => 0). rewrite !app_nil_r. split; [reflexivity|]. split; [assumption|]. split; [apply ProofsEnum.st_le_refl|].
+      split; [intros p []|]. split; [intros p []|auto].
     - destruct (HX (id, s) (or_introl eq_refl)) as [Hs Hmid]. cbn [fst snd] in Hs, Hmid.
       assert (HXr : forall p, In p r -> In (snd p) sigs /\ (fst p = mid <-> snd p = mx)) by (intros p Hp; apply HX; right; assumption).
       cbn [map] in Hnd. inversion Hnd as [|? ? Hni Hndr]; subst.
@@ -656,31 +796,44 @@ Section MuxImport.
       destruct (id =? mid) eqn:Em.
       + apply Z.eqb_eq in Em. assert (s = mx) by (apply Hmid; assumption). subst s.
         destruct mx_top as [_ Ht]. unfold childp, plainp. cbn [snd]. rewrite Ht, Hmxm. cbn [negb andb].
-        destruct (IH st mu sd la HXr Hndr) as [st' [E1 [E2 [E3 [E4 E5]]]]]. exists st'. split; [exact E1|]. split; [exact E2|]. split; [exact E3|]. split.
+        destruct (IH st mu sd la HXr Hndr HI Hle) as [st' [EI [E1 [E2 [E3 [E6 [E4 E5]]]]]]]. exists st', EI.
+        split; [exact E1|]. split; [exact E2|]. split; [exact E3|]. split; [|split].
+        * intros p [<-|Hp] Hne; [cbn [snd] in Hne; contradiction|apply E6; assumption].
         * intros p [<-|Hp] Hne; [cbn [snd] in Hne; contradiction|apply E4; assumption].
         * intros k Hk. apply E5. intros p Hp. apply Hk. right. assumption.
       + assert (Hne : s <> mx) by (intros ->; apply Z.eqb_neq in Em; apply Em; apply Hmid; reflexivity).
         destruct (other_sig s Hs Hne) as [Hnm [Hk Hc]]. destruct (img_fields s Hs Hne) as [F1 [F2 [F3 F4]]].
+        destruct (other_size s Hs Hne) as [Hstd _].
         destruct (Henv s Hs Hnm) as [He1 He2].
-        rewrite import_signal_std.
-        2:{ rewrite F1. exact He1. }
-        2:{ rewrite F2. destruct Hc as [[_ Htop]|[_ Hch]].
-            - destruct Htop as [_ [_ [_ [_ [_ [_ Hsz]]]]]]. rewrite Hk in Hsz. lia.
-            - destruct Hch as [_ [_ [_ [_ [_ [_ [_ [Hsz _]]]]]]]]. lia. }
-        cbn [bind]. rewrite F3. unfold childp, plainp. cbn [snd]. rewrite Hnm.
+        destruct (import_signal_g es env st0 st mpos msgid id (img s) s Hk Hstd He2 He1 HI Hle F1 (img_data s Hs Hne))
+          as [ei [st2 [Ei [I2 [L2 [K2 Hst2]]]]]].
+        rewrite Ei. cbn [bind]. rewrite F3. unfold childp, plainp. cbn [snd]. rewrite Hnm.
         assert (Hfresh : forall p, In p r -> (msgid, clear (s_name s)) <> (msgid, clear (s_name (snd p)))).
         { intros p Hp Heq. inversion Heq as [Hq]. destruct Hms as [_ [Hnames _]].
           assert (s = snd p) by (apply (NoDup_map_inj (fun x => clear (s_name x)) sigs); try assumption; apply HXr; assumption).
           apply Hni. rewrite H. apply in_map. assumption. }
-        set (st2 := set_sigmap st (((msgid, ds_name (img s)), (mpos, id)) :: is_sigmap st)).
-        assert (Hst2 : is_sigmap st2 = ((msgid, clear (s_name s)), (mpos, id)) :: is_sigmap st) by (unfold st2; cbn [is_sigmap set_sigmap]; rewrite F1; reflexivity).
+        assert (Hle2 : ProofsEnum.st_le st0 st2) by (eapply ProofsEnum.st_le_trans; [exact Hrv0|exact Hle|exact L2]).
+        assert (Hrv : ProofsEnum.refs_valid st) by (destruct HI as [I1 _]; exact I1).
+        assert (Hrv2 : ProofsEnum.refs_valid st2) by (destruct I2 as [I1 _]; exact I1).
+        set (EIx := fun (EIr : signal -> Z) (x : signal) => if String.eqb (clear (s_name x)) (clear (s_name s)) then ei else EIr x).
+        assert (HEI0 : forall EIr, EIx EIr s = ei) by (intros EIr; unfold EIx; rewrite String.eqb_refl; reflexivity).
+        assert (HEIr : forall EIr p, In p r -> EIx EIr (snd p) = EIr (snd p)).
+        { intros EIr p Hp. unfold EIx. destruct (String.eqb (clear (s_name (snd p))) (clear (s_name s))) eqn:E; [|reflexivity].
+          apply String.eqb_eq in E. exfalso. apply (Hfresh p Hp). rewrite E. reflexivity. }
+        assert (Hmapr : forall EIr (f : Z * signal -> bool), map (ent (EIx EIr)) (filter f r) = map (ent EIr) (filter f r)).
+        { intros EIr f. apply map_ext_in. intros p Hp. apply filter_In in Hp. destruct Hp as [Hp _]. unfold ent. rewrite (HEIr EIr p Hp). reflexivity. }
         destruct (is_topb s) eqn:Et; cbn [negb andb map app].
-        * destruct (IH st2 mu (sd ++ [ent (id, s)]) la HXr Hndr) as [st' [E1 [E2 [E3 [E4 E5]]]]].
-          exists st'. split; [rewrite <- app_assoc in E1; exact E1|]. split; [exact E2|]. split; [exact E3|]. split.
+        * destruct (IH st2 mu (sd ++ [((rimg id s ei, []), img s)]) la HXr Hndr I2 Hle2) as [st' [EIr [E1 [E2 [E3 [E6 [E4 E5]]]]]]].
+          exists st', (EIx EIr). rewrite !Hmapr. unfold ent at 2. cbn [fst snd]. rewrite HEI0.
+          split; [rewrite <- app_assoc in E1; exact E1|]. split; [exact E2|]. split; [eapply ProofsEnum.st_le_trans; eauto|]. split; [|split].
+          -- intros p [<-|Hp] Hnx; cbn [fst snd]; [rewrite HEI0; eapply EIok_mono; eauto|rewrite (HEIr EIr p Hp); apply E6; assumption].
           -- intros p [<-|Hp] Hnx; cbn [fst snd]; [rewrite (E5 _ Hfresh), Hst2; apply lookup_key_head|apply E4; assumption].
           -- intros k Hk'. rewrite E5 by (intros p Hp; apply Hk'; right; assumption). rewrite Hst2. apply lookup_key_skip. apply (Hk' (id, s)). left. reflexivity.
-        * destruct (IH st2 (mu ++ [ent (id, s)]) sd (if get_start_bit (img s) >? la then get_start_bit (img s) else la) HXr Hndr) as [st' [E1 [E2 [E3 [E4 E5]]]]].
-          exists st'. split; [rewrite <- app_assoc in E1; exact E1|]. split; [exact E2|]. split; [exact E3|]. split.
+        * destruct (IH st2 (mu ++ [((rimg id s ei, []), img s)]) sd (if get_start_bit (img s) >? la then get_start_bit (img s) else la) HXr Hndr I2 Hle2)
+            as [st' [EIr [E1 [E2 [E3 [E6 [E4 E5]]]]]]].
+          exists st', (EIx EIr). rewrite !Hmapr. unfold ent at 1. cbn [fst snd]. rewrite HEI0.
+          split; [rewrite <- app_assoc in E1; exact E1|]. split; [exact E2|]. split; [eapply ProofsEnum.st_le_trans; eauto|]. split; [|split].
+          -- intros p [<-|Hp] Hnx; cbn [fst snd]; [rewrite HEI0; eapply EIok_mono; eauto|rewrite (HEIr EIr p Hp); apply E6; assumption].
           -- intros p [<-|Hp] Hnx; cbn [fst snd]; [rewrite (E5 _ Hfresh), Hst2; apply lookup_key_head|apply E4; assumption].
           -- intros k Hk'. rewrite E5 by (intros p Hp; apply Hk'; right; assumption). rewrite Hst2. apply lookup_key_skip. apply (Hk' (id, s)). left. reflexivity.
   Qed.
@@ -702,7 +855,7 @@ Section MuxImport.
 
   Lemma selw_facts : 1 <= selw <= 32 /\ s_gcount mx <= 2 ^ selw /\ 1 <= s_gcount mx /\ 1 <= s_gsize mx /\ s_gcount mx <= 2 ^ 32.
   Proof using Hmm Hmx Hmxm.
-    clear Henv Henvx Hext. destruct mx_top as [[_ [_ [_ [_ [_ [_ Hk]]]]]] _]. pose proof Hmxm as Hmk. unfold is_muxb in Hmk. destruct (s_kind mx); try discriminate.
+    clear Henv Henvx Hext Hrv0. destruct mx_top as [[_ [_ [_ [_ [_ [_ Hk]]]]]] _]. pose proof Hmxm as Hmk. unfold is_muxb in Hmk. destruct (s_kind mx); try discriminate.
     destruct Hk as [[Hg1 Hg2] Hgs]. unfold selw, sel_width, calc_size_from_value.
     destruct (s_gcount mx - 1 =? 0) eqn:E0.
     - change (2 ^ 1) with 2. lia.
@@ -723,12 +876,13 @@ Section MuxImport.
   Qed.
 
   Lemma child_geo : forall c, In c sigs -> is_topb c = false ->
-    0 <= s_rel c /\ 0 < s_size c /\ s_rel c + s_size c <= s_gsize mx /\
-    mstart + selw + s_rel c + s_size c <= m_size m * 8 /\ 0 <= mstart.
+    0 <= s_rel c /\ 0 < sig_size es c /\ s_rel c + sig_size es c <= s_gsize mx /\
+    mstart + selw + s_rel c + sig_size es c <= m_size m * 8 /\ 0 <= mstart.
   Proof.
     intros c Hc Hct. assert (Hne : c <> mx) by (intros ->; destruct mx_top as [_ H]; congruence).
     destruct (other_sig c Hc Hne) as [_ [_ [[Ht _]|[_ Hok]]]]; [congruence|].
-    destruct Hok as [_ [_ [_ [_ [_ [_ [_ [Hsz [Hr Hend]]]]]]]]].
+    destruct Hok as [_ [_ [_ [_ [_ [_ [_ [Hr Hend]]]]]]]].
+    destruct (other_size c Hc Hne) as [_ Hsz].
     destruct mx_top as [_ Hmt]. destruct (proj1 tops_geo mx Hmx Hmt) as [G1 G2].
     assert (Hss : sig_size es mx = s_gsize mx + selw).
     { unfold sig_size. unfold is_muxb in Hmxm. destruct (s_kind mx); try discriminate. reflexivity. }
@@ -740,11 +894,9 @@ Section MuxImport.
     intros c Hc Hct. destruct (child_geo c Hc Hct) as [G1 [G2 [G3 [G4 G5]]]]. pose proof msize_bounds. destruct selw_facts as [Hs _].
     assert (Hne : c <> mx) by (intros ->; destruct mx_top as [_ H']; congruence).
     destruct (other_sig c Hc Hne) as [Hnm _].
-    apply (gsb _ o); try lia; unfold img; rewrite Hnm, Hct; reflexivity.
+    apply (gsb _ o); try lia; unfold img; rewrite Hnm, Hct; unfold child_dsig; destruct (s_kind c); reflexivity.
   Qed.
 
-  (* ---- the second loop: the plain signals are inserted at top level ---- *)
-  Definition timg (p : Z * signal) : signal := place (std_imp env msgid (fst p) (img (snd p))) (s_rel (snd p)) None [].
   Definition mux_end : Z := mstart + selw + s_gsize mx.
 
   Lemma sig_size_mx : sig_size es mx = s_gsize mx + selw.
@@ -767,83 +919,10 @@ Section MuxImport.
     if (sp >? mstart) && (sp <? last) then Ok (ms, muxed2 ++ [(t, ds)])
     else do ms' <- (let '(st0, sigs0) := ms in do sigs' <- msg_insert (is_enums st0) msize sigs0 t sp; Ok (st0, sigs')); Ok (ms', muxed2).
 
-  Lemma plain_facts : forall t, In t sigs -> is_topb t = true -> is_muxb t = false ->
-    s_kind t = KStandard /\ sig_size es t = s_size t /\ 0 < s_size t /\ t <> mx.
+  Lemma plain_facts : forall t, In t sigs -> is_topb t = true -> is_muxb t = false -> 0 < sig_size es t /\ t <> mx.
   Proof.
     intros t Ht Htt Hnm. assert (Hne : t <> mx) by (intros ->; congruence).
-    destruct (other_sig t Ht Hne) as [_ [Hk [[_ Htop]|[Hf _]]]]; [|congruence].
-    destruct Htop as [_ [_ [_ [_ [_ [_ Hsz]]]]]]. rewrite Hk in Hsz. unfold sig_size. rewrite Hk. repeat split; try lia. assumption.
-  Qed.
-
-  Lemma loop2 : forall st1 last mu l done, last < mux_end ->
-    NoDup (map snd (done ++ l)) ->
-    (forall p, In p (done ++ l) -> In (snd p) sigs /\ is_topb (snd p) = true /\ is_muxb (snd p) = false) ->
-    fold_left (f2 st1 (m_size m) last) (map ent l) (Ok ((st1, map timg done), mu)) = Ok ((st1, map timg (done ++ l)), mu).
-  Proof.
-    intros st1 last mu l. induction l as [|p r IH]; intros done Hla Hnd HP; cbn [map fold_left]; [rewrite app_nil_r; reflexivity|].
-    destruct (HP p ltac:(apply in_or_app; right; left; reflexivity)) as [Hs [Ht Hnm]].
-    destruct (plain_facts _ Hs Ht Hnm) as [Hk [Hsz [Hpos Hne]]].
-    destruct (proj1 tops_geo _ Hs Ht) as [G1 G2]. destruct mx_top as [_ Hmt].
-    unfold f2 at 2. unfold ent at 2. cbv zeta. cbn [bind fst snd].
-    rewrite (start_top _ Hs Ht).
-    assert (Hcond : (s_rel (snd p) >? mstart) && (s_rel (snd p) <? last) = false).
-    { destruct (proj2 tops_geo (snd p) mx Hs Hmx Ht Hmt Hne) as [Hd|Hd]; try rewrite sig_size_mx in Hd; rewrite ?Hsz in Hd; unfold mux_end, mstart in *; lia. }
-    rewrite Hcond.
-    destruct (img_fields (snd p) Hs Hne) as [F1 [F2 _]].
-    rewrite msg_insert_ok_g.
-    - cbn [bind app]. replace (map timg done ++ [place (std_imp env msgid (fst p) (img (snd p))) (s_rel (snd p)) None []]) with (map timg (done ++ [p]))
-        by (rewrite map_app; reflexivity).
-      rewrite (IH (done ++ [p])); [rewrite <- app_assoc; reflexivity|assumption|rewrite <- app_assoc; assumption|rewrite <- app_assoc; assumption].
-    - cbn [s_name std_imp]. rewrite F1. intros Hin. rewrite map_map in Hin. apply in_map_iff in Hin. destruct Hin as [q [Hq Hqin]].
-      cbn [s_name timg place std_imp] in Hq.
-      destruct (HP q ltac:(apply in_or_app; left; assumption)) as [Hqs [Hqt Hqm]].
-      destruct (plain_facts _ Hqs Hqt Hqm) as [_ [_ [_ Hqne]]]. rewrite (proj1 (img_fields (snd q) Hqs Hqne)) in Hq.
-      destruct Hms as [_ [Hnm' _]]. assert (snd q = snd p) by (apply (NoDup_map_inj (fun s => clear (s_name s)) sigs); assumption).
-      rewrite map_app in Hnd. cbn [map] in Hnd. apply NoDup_remove_2 in Hnd. apply Hnd. apply in_or_app. left. rewrite <- H. apply in_map. assumption.
-    - intros x [].
-    - constructor; [intros []|constructor].
-    - assumption.
-    - unfold sig_size. cbn [s_kind std_imp s_size]. rewrite F2. assumption.
-    - unfold sig_size. cbn [s_kind std_imp s_size]. rewrite F2. rewrite Hsz in G2. assumption.
-    - intros d Hd _. apply in_map_iff in Hd. destruct Hd as [q [<- Hqin]].
-      destruct (HP q ltac:(apply in_or_app; left; assumption)) as [Hqs [Hqt Hqm]].
-      destruct (plain_facts _ Hqs Hqt Hqm) as [_ [Hqsz [_ Hqne]]].
-      assert (Hpq : snd p <> snd q).
-      { intros Heq. rewrite map_app in Hnd. cbn [map] in Hnd. apply NoDup_remove_2 in Hnd. apply Hnd. apply in_or_app. left. rewrite Heq. apply in_map. assumption. }
-      unfold sig_size, overlaps. cbn [s_kind std_imp s_size s_rel timg place]. rewrite F2, (proj1 (proj2 (img_fields (snd q) Hqs Hqne))).
-      destruct (proj2 tops_geo (snd p) (snd q) Hs Hqs Ht Hqt Hpq) as [Hd|Hd]; rewrite ?Hsz, ?Hqsz in Hd; lia.
-  Qed.
-
-  (* ---- the multiplexer and its children ---- *)
-  Definition kimg (p : Z * signal) : signal :=
-    place (std_imp env msgid (fst p) (img (snd p))) (s_rel (snd p)) (Some mid) [grp (snd p)].
-  Definition cend (c : signal) : Z := s_size c + (mstart + selw + s_rel c).
-
-  Definition ebit (es' : list enum_def) (a : Z) (l : list (Z * signal)) : Z :=
-    fold_left (fun acc (p : subtree * dsignal) =>
-                 let e := sig_size es' (fst (fst p)) + get_start_bit (snd p) in if e >? acc then e else acc) (map ent l) a.
-
-  Lemma child_entry : forall es' p, In (snd p) sigs -> is_topb (snd p) = false ->
-    sig_size es' (fst (fst (ent p))) + get_start_bit (snd (ent p)) = cend (snd p) /\ snd p <> mx.
-  Proof.
-    intros es' p Hs Ht. assert (Hne : snd p <> mx) by (intros Heq; destruct mx_top as [_ H']; rewrite Heq in Ht; congruence).
-    split; [|assumption]. unfold ent. cbn [fst snd]. rewrite (start_child _ Hs Ht).
-    unfold sig_size. cbn [s_kind std_imp s_size]. rewrite (proj1 (proj2 (img_fields _ Hs Hne))). reflexivity.
-  Qed.
-
-  Lemma ebit_spec : forall es' l a, (forall p, In p l -> In (snd p) sigs /\ is_topb (snd p) = false) ->
-    a <= ebit es' a l /\ (forall p, In p l -> cend (snd p) <= ebit es' a l) /\
-    (forall B, a <= B -> (forall p, In p l -> cend (snd p) <= B) -> ebit es' a l <= B).
-  Proof.
-    intros es' l. induction l as [|p r IH]; intros a HP; unfold ebit; cbn [map fold_left].
-    - split; [lia|]. split; [intros p []|intros B HB _; exact HB].
-    - destruct (HP p (or_introl eq_refl)) as [Hs Ht]. destruct (child_entry es' p Hs Ht) as [He _]. cbv zeta. rewrite He.
-      fold (ebit es' (if cend (snd p) >? a then cend (snd p) else a) r).
-      destruct (IH (if cend (snd p) >? a then cend (snd p) else a) (fun q Hq => HP q (or_intror Hq))) as [I1 [I2 I3]].
-      split; [destruct (cend (snd p) >? a) eqn:E; lia|]. split.
-      + intros q [<-|Hq]; [destruct (cend (snd p) >? a) eqn:E; lia|apply I2; assumption].
-      + intros B HB Hall. apply I3; [|intros q Hq; apply Hall; right; assumption].
-        pose proof (Hall p (or_introl eq_refl)). destruct (cend (snd p) >? a); lia.
+    destruct (other_size t Ht Hne) as [_ Hsz]. split; [lia|assumption].
   Qed.
 
   Definition kstep (es' : list enum_def) (mx0 : signal) (acc : result (list signal * list signal)) (p : subtree * dsignal) :=
@@ -853,96 +932,306 @@ Section MuxImport.
     do c <- mux_insert es' mx0 kids (fst (fst p)) rel gids;
     Ok (kids ++ [c], belows ++ snd (fst p)).
 
-  Lemma mux_kid_step : forall es' mx0 done p,
-    s_id mx0 = mid -> s_gcount mx0 = 2 ^ selw ->
-    (forall q, In q (done ++ [p]) -> In (snd q) sigs /\ is_topb (snd q) = false /\ s_rel (snd q) + s_size (snd q) <= s_gsize mx0) ->
-    NoDup (map snd (done ++ [p])) ->
-    kstep es' mx0 (Ok (map kimg done, [])) (ent p) = Ok (map kimg (done ++ [p]), []).
-  Proof.
-    intros es' mx0 done p Hid Hgc HP Hnd. unfold kstep.
-    destruct (HP p ltac:(apply in_or_app; right; left; reflexivity)) as [Hs [Ht Hfit]].
-    assert (Hne : snd p <> mx) by (intros Heq; destruct mx_top as [_ H']; rewrite Heq in Ht; congruence).
-    destruct (other_sig _ Hs Hne) as [Hnm [Hk [[Htt _]|[_ Hok]]]]; [congruence|].
-    destruct (img_fields _ Hs Hne) as [F1 [F2 [F3 _]]].
-    destruct (child_geo _ Hs Ht) as [G1 [G2 [G3 [G4 G5]]]].
-    destruct Hok as [_ [_ [[g [Hg Hgr]] _]]]. assert (Hgrp : grp (snd p) = g) by (unfold grp; rewrite Hg; reflexivity).
-    destruct selw_facts as [Hsw [Hgc' [_ [_ Hg32]]]].
-    cbn [bind]. change (ent p) with ((std_imp env msgid (fst p) (img (snd p)), @nil signal), img (snd p)). cbn [fst snd]. cbv zeta.
-    assert (Hcsz : sig_size es' (std_imp env msgid (fst p) (img (snd p))) = s_size (snd p)) by (unfold sig_size; cbn [s_kind std_imp s_size]; exact F2).
-    unfold child_groups. cbn [s_name std_imp]. rewrite Hext. cbn [lookup bind]. rewrite F3, Ht. cbn [negb].
-    assert (Hsw' : ds_switch (img (snd p)) = g).
-    { unfold img. rewrite Hnm, Ht. cbn [ds_switch child_dsig]. rewrite Hgrp. apply u32_id. lia. }
-    rewrite Hsw', (start_child _ Hs Ht).
-    replace (mstart + selw + s_rel (snd p) - mstart - selw) with (s_rel (snd p)) by lia.
-    unfold mux_insert.
-    rewrite not_in_mem_str.
-    2:{ cbn [s_name std_imp]. rewrite F1. rewrite map_map. intros Hin. apply in_map_iff in Hin. destruct Hin as [q [Hq Hqin]].
-        cbn [s_name kimg place std_imp] in Hq.
-        destruct (HP q ltac:(apply in_or_app; left; assumption)) as [Hqs [Hqt _]].
-        assert (Hqne : snd q <> mx) by (intros Heq; destruct mx_top as [_ H']; rewrite Heq in Hqt; congruence).
-        rewrite (proj1 (img_fields (snd q) Hqs Hqne)) in Hq.
-        destruct Hms as [_ [Hnm' _]]. assert (snd q = snd p) by (apply (NoDup_map_inj (fun s => clear (s_name s)) sigs); assumption).
-        rewrite map_app in Hnd. cbn [map] in Hnd. apply NoDup_remove_2 in Hnd. apply Hnd. apply in_or_app. left. rewrite <- H. apply in_map. assumption. }
-    cbn [dedup_z mem_z existsb fold_left bind]. rewrite Hgc.
-    replace ((g <? 0) || (g >=? 2 ^ selw)) with false by lia.
-    unfold verify_insert. rewrite Hcsz.
-    replace (s_rel (snd p) <? 0) with false by lia. replace (s_size (snd p) >? s_gsize mx0) with false by lia.
-    replace (s_rel (snd p) + s_size (snd p) >? s_gsize mx0) with false by lia.
-    replace (existsb _ (filter _ (map kimg done))) with false.
-    2:{ symmetry. destruct (existsb _ (filter _ (map kimg done))) eqn:E; [|reflexivity]. exfalso.
-        apply existsb_exists in E. destruct E as [d [Hd Ho]]. apply filter_In in Hd. destruct Hd as [Hd Hig].
-        apply in_map_iff in Hd. destruct Hd as [q [<- Hqin]].
-        destruct (HP q ltac:(apply in_or_app; left; assumption)) as [Hqs [Hqt _]].
-        assert (Hqne : snd q <> mx) by (intros Heq; destruct mx_top as [_ H']; rewrite Heq in Hqt; congruence).
-        assert (Hpq : snd p <> snd q).
-        { intros Heq. rewrite map_app in Hnd. cbn [map] in Hnd. apply NoDup_remove_2 in Hnd. apply Hnd. apply in_or_app. left. rewrite Heq. apply in_map. assumption. }
-        unfold in_group in Hig. cbn [s_groups kimg place] in Hig. unfold mem_z in Hig. cbn [existsb] in Hig. rewrite orb_false_r in Hig.
-        apply Z.eqb_eq in Hig.
-        destruct Hms as [_ [_ [_ [_ [_ [Hdis _]]]]]].
-        unfold overlaps, sig_size in Ho. cbn [s_kind s_rel s_size kimg place std_imp] in Ho.
-        rewrite (proj1 (proj2 (img_fields (snd q) Hqs Hqne))) in Ho.
-        destruct (Hdis (snd p) (snd q) Hs Hqs Ht Hqt Hpq ltac:(rewrite Hgrp; exact Hig)) as [Hd|Hd]; lia. }
-    cbn [bind sort_by fold_right insert_sorted].
-    replace (map kimg done ++ [place (std_imp env msgid (fst p) (img (snd p))) (s_rel (snd p)) (Some (s_id mx0)) [g]]) with (map kimg (done ++ [p])).
-    2:{ rewrite map_app. cbn [map]. f_equal. f_equal. unfold kimg. rewrite Hid, Hgrp. reflexivity. }
-    rewrite app_nil_r. reflexivity.
-  Qed.
-
-  Lemma mux_kids : forall es' mx0 l done,
-    s_id mx0 = mid -> s_gcount mx0 = 2 ^ selw ->
-    (forall p, In p (done ++ l) -> In (snd p) sigs /\ is_topb (snd p) = false /\ s_rel (snd p) + s_size (snd p) <= s_gsize mx0) ->
-    NoDup (map snd (done ++ l)) ->
-    fold_left (kstep es' mx0) (map ent l) (Ok (map kimg done, [])) = Ok (map kimg (done ++ l), []).
-  Proof.
-    intros es' mx0 l. induction l as [|p r IH]; intros done Hid Hgc HP Hnd; cbn [map fold_left]; [rewrite app_nil_r; reflexivity|].
-    rewrite mux_kid_step; try assumption.
-    - assert (HI : forall x, x = done ++ p :: r -> (done ++ [p]) ++ r = x) by (intros x ->; rewrite <- app_assoc; reflexivity).
-      pose proof (IH (done ++ [p]) Hid Hgc) as HI2. rewrite (HI _ eq_refl) in HI2. exact (HI2 HP Hnd).
-    - intros q Hq. apply HP. apply in_app_or in Hq. apply in_or_app. destruct Hq as [Hq|[<-|[]]]; [left; assumption|right; left; reflexivity].
-    - replace (done ++ p :: r) with ((done ++ [p]) ++ r) in Hnd by (rewrite <- app_assoc; reflexivity).
-      rewrite map_app in Hnd. eapply NoDup_prefix. exact Hnd.
-  Qed.
-
-  (* ---- the whole message ---- *)
-  Definition gsize_of (es' : list enum_def) (X : list (Z * signal)) : Z :=
-    let eb := ebit es' 0 (filter childp X) in if eb >? 0 then eb - mstart - selw else 1.
   Definition mx_img (gs : Z) : signal :=
     mksignal mid (clear (s_name mx)) KMux mstart None [] 0 false fl_one fl_zero fl_zero fl_zero EmptyString
              0 (2 ^ selw) gs (s_desc mx) fl_zero 0 [].
+  Definition cend (c : signal) : Z := sig_size es c + (mstart + selw + s_rel c).
+
+  (* ---- with the enum indices the first loop resolved ---- *)
+  Section WithEI.
+    Variable EI : signal -> Z.
+    Variable st1 : istate.
+    Hypothesis HEI : forall s, In s sigs -> s <> mx -> EIok es st1 s (EI s).
+    Let es1 := is_enums st1.
+
+    Definition rim (p : Z * signal) : signal := rimg (fst p) (snd p) (EI (snd p)).
+    Definition timg (p : Z * signal) : signal := place (rim p) (s_rel (snd p)) None [].
+    Definition kimg (p : Z * signal) : signal := place (rim p) (s_rel (snd p)) (Some mid) [grp (snd p)].
+
+    Lemma ent_rim : forall p, ent EI p = ((rim p, []), img (snd p)).
+    Proof. reflexivity. Qed.
+    Lemma rim_size : forall p, In (snd p) sigs -> snd p <> mx -> sig_size es1 (rim p) = sig_size es (snd p).
+    Proof. intros p Hs Hne. destruct (other_sig _ Hs Hne) as [_ [Hk _]]. apply rimg_size; [assumption|apply HEI; assumption]. Qed.
+    Lemma rim_name : forall p, s_name (rim p) = clear (s_name (snd p)).
+    Proof. intros p. apply (rimg_fields (fst p) (snd p) (EI (snd p))). Qed.
+
+    Lemma loop2 : forall last mu l done, last < mux_end ->
+      NoDup (map snd (done ++ l)) ->
+      (forall p, In p (done ++ l) -> In (snd p) sigs /\ is_topb (snd p) = true /\ is_muxb (snd p) = false) ->
+      fold_left (f2 st1 (m_size m) last) (map (ent EI) l) (Ok ((st1, map timg done), mu)) = Ok ((st1, map timg (done ++ l)), mu).
+    Proof.
+      intros last mu l. induction l as [|p r IH]; intros done Hla Hnd HP; cbn [map fold_left]; [rewrite app_nil_r; reflexivity|].
+      destruct (HP p ltac:(apply in_or_app; right; left; reflexivity)) as [Hs [Ht Hnm]].
+      destruct (plain_facts _ Hs Ht Hnm) as [Hpos Hne].
+      destruct (proj1 tops_geo _ Hs Ht) as [G1 G2]. destruct mx_top as [_ Hmt].
+      unfold f2 at 2. rewrite ent_rim. cbv zeta. cbn [bind fst snd].
+      rewrite (start_top _ Hs Ht).
+      assert (Hcond : (s_rel (snd p) >? mstart) && (s_rel (snd p) <? last) = false).
+      { destruct (proj2 tops_geo (snd p) mx Hs Hmx Ht Hmt Hne) as [Hd|Hd]; try rewrite sig_size_mx in Hd; unfold mux_end, mstart in *; lia. }
+      rewrite Hcond.
+      rewrite msg_insert_ok_g.
+      - cbn [bind app]. replace (map timg done ++ [place (rim p) (s_rel (snd p)) None []]) with (map timg (done ++ [p]))
+          by (rewrite map_app; reflexivity).
+        rewrite (IH (done ++ [p])); [rewrite <- app_assoc; reflexivity|assumption|rewrite <- app_assoc; assumption|rewrite <- app_assoc; assumption].
+      - rewrite rim_name. intros Hin. rewrite map_map in Hin. apply in_map_iff in Hin. destruct Hin as [q [Hq Hqin]].
+        cbn [s_name timg place] in Hq. rewrite rim_name in Hq.
+        destruct (HP q ltac:(apply in_or_app; left; assumption)) as [Hqs [Hqt Hqm]].
+        destruct Hms as [_ [Hnm' _]]. assert (snd q = snd p) by (apply (NoDup_map_inj (fun s => clear (s_name s)) sigs); assumption).
+        rewrite map_app in Hnd. cbn [map] in Hnd. apply NoDup_remove_2 in Hnd. apply Hnd. apply in_or_app. left. rewrite <- H. apply in_map. assumption.
+      - intros x [].
+      - constructor; [intros []|constructor].
+      - assumption.
+      - fold es1. rewrite (rim_size p Hs Hne). assumption.
+      - fold es1. rewrite (rim_size p Hs Hne). assumption.
+      - intros d Hd _. apply in_map_iff in Hd. destruct Hd as [q [<- Hqin]].
+        destruct (HP q ltac:(apply in_or_app; left; assumption)) as [Hqs [Hqt Hqm]].
+        destruct (plain_facts _ Hqs Hqt Hqm) as [_ Hqne].
+        assert (Hpq : snd p <> snd q).
+        { intros Heq. rewrite map_app in Hnd. cbn [map] in Hnd. apply NoDup_remove_2 in Hnd. apply Hnd. apply in_or_app. left. rewrite Heq. apply in_map. assumption. }
+        fold es1. unfold timg. rewrite ProofsLayout.sig_size_place, (rim_size p Hs Hne), (rim_size q Hqs Hqne). unfold overlaps. cbn [s_rel place].
+        destruct (proj2 tops_geo (snd p) (snd q) Hs Hqs Ht Hqt Hpq) as [Hd|Hd]; lia.
+    Qed.
+
+    (* ---- the multiplexer and its children ---- *)
+    Definition ebit (a : Z) (l : list (Z * signal)) : Z :=
+      fold_left (fun acc (p : subtree * dsignal) =>
+                   let e := sig_size es1 (fst (fst p)) + get_start_bit (snd p) in if e >? acc then e else acc) (map (ent EI) l) a.
+
+    Lemma child_entry : forall p, In (snd p) sigs -> is_topb (snd p) = false ->
+      sig_size es1 (fst (fst (ent EI p))) + get_start_bit (snd (ent EI p)) = cend (snd p) /\ snd p <> mx.
+    Proof.
+      intros p Hs Ht. assert (Hne : snd p <> mx) by (intros Heq; destruct mx_top as [_ H']; rewrite Heq in Ht; congruence).
+      split; [|assumption]. rewrite ent_rim. cbn [fst snd]. rewrite (start_child _ Hs Ht), (rim_size p Hs Hne). reflexivity.
+    Qed.
+
+    Lemma ebit_spec : forall l a, (forall p, In p l -> In (snd p) sigs /\ is_topb (snd p) = false) ->
+      a <= ebit a l /\ (forall p, In p l -> cend (snd p) <= ebit a l) /\
+      (forall B, a <= B -> (forall p, In p l -> cend (snd p) <= B) -> ebit a l <= B).
+    Proof.
+      intros l. induction l as [|p r IH]; intros a HP; unfold ebit; cbn [map fold_left].
+      - split; [lia|]. split; [intros p []|intros B HB _; exact HB].
+      - destruct (HP p (or_introl eq_refl)) as [Hs Ht]. destruct (child_entry p Hs Ht) as [He _]. cbv zeta. rewrite He.
+        fold (ebit (if cend (snd p) >? a then cend (snd p) else a) r).
+        destruct (IH (if cend (snd p) >? a then cend (snd p) else a) (fun q Hq => HP q (or_intror Hq))) as [I1 [I2 I3]].
+        split; [destruct (cend (snd p) >? a) eqn:E; lia|]. split.
+        + intros q [<-|Hq]; [destruct (cend (snd p) >? a) eqn:E; lia|apply I2; assumption].
+        + intros B HB Hall. apply I3; [|intros q Hq; apply Hall; right; assumption].
+          pose proof (Hall p (or_introl eq_refl)). destruct (cend (snd p) >? a); lia.
+    Qed.
+
+    Lemma mux_kid_step : forall mx0 done p,
+      s_id mx0 = mid -> s_gcount mx0 = 2 ^ selw ->
+      (forall q, In q (done ++ [p]) -> In (snd q) sigs /\ is_topb (snd q) = false /\ s_rel (snd q) + sig_size es (snd q) <= s_gsize mx0) ->
+      NoDup (map snd (done ++ [p])) ->
+      kstep es1 mx0 (Ok (map kimg done, [])) (ent EI p) = Ok (map kimg (done ++ [p]), []).
+    Proof.
+      intros mx0 done p Hid Hgc HP Hnd. unfold kstep.
+      destruct (HP p ltac:(apply in_or_app; right; left; reflexivity)) as [Hs [Ht Hfit]].
+      assert (Hne : snd p <> mx) by (intros Heq; destruct mx_top as [_ H']; rewrite Heq in Ht; congruence).
+      destruct (other_sig _ Hs Hne) as [Hnm [Hk [[Htt _]|[_ Hok]]]]; [congruence|].
+      destruct (img_fields _ Hs Hne) as [F1 [F2 [F3 _]]].
+      destruct (child_geo _ Hs Ht) as [G1 [G2 [G3 [G4 G5]]]].
+      destruct Hok as [_ [_ [[g [Hg Hgr]] _]]]. assert (Hgrp : grp (snd p) = g) by (unfold grp; rewrite Hg; reflexivity).
+      destruct selw_facts as [Hsw [Hgc' [_ [_ Hg32]]]].
+      cbn [bind]. rewrite ent_rim. cbn [fst snd]. cbv zeta.
+      pose proof (rim_size p Hs Hne) as Hcsz.
+      unfold child_groups. rewrite Hext. cbn [lookup bind]. rewrite F3, Ht. cbn [negb].
+      assert (Hsw' : ds_switch (img (snd p)) = g).
+      { unfold img. rewrite Hnm, Ht. unfold child_dsig. destruct (s_kind (snd p)); cbn [ds_switch]; rewrite Hgrp; apply u32_id; lia. }
+      rewrite Hsw', (start_child _ Hs Ht).
+      replace (mstart + selw + s_rel (snd p) - mstart - selw) with (s_rel (snd p)) by lia.
+      unfold mux_insert.
+      rewrite not_in_mem_str.
+      2:{ rewrite rim_name. rewrite map_map. intros Hin. apply in_map_iff in Hin. destruct Hin as [q [Hq Hqin]].
+          cbn [s_name kimg place] in Hq. rewrite rim_name in Hq.
+          destruct (HP q ltac:(apply in_or_app; left; assumption)) as [Hqs [Hqt _]].
+          destruct Hms as [_ [Hnm' _]]. assert (snd q = snd p) by (apply (NoDup_map_inj (fun s => clear (s_name s)) sigs); assumption).
+          rewrite map_app in Hnd. cbn [map] in Hnd. apply NoDup_remove_2 in Hnd. apply Hnd. apply in_or_app. left. rewrite <- H. apply in_map. assumption. }
+      cbn [dedup_z mem_z existsb fold_left bind]. rewrite Hgc.
+      replace ((g <? 0) || (g >=? 2 ^ selw)) with false by lia.
+      unfold verify_insert. fold es1. rewrite Hcsz.
+      replace (s_rel (snd p) <? 0) with false by lia. replace (sig_size es (snd p) >? s_gsize mx0) with false by lia.
+      replace (s_rel (snd p) + sig_size es (snd p) >? s_gsize mx0) with false by lia.
+      replace (existsb _ (filter _ (map kimg done))) with false.
+      2:{ symmetry. destruct (existsb _ (filter _ (map kimg done))) eqn:E; [|reflexivity]. exfalso.
+          apply existsb_exists in E. destruct E as [d [Hd Ho]]. apply filter_In in Hd. destruct Hd as [Hd Hig].
+          apply in_map_iff in Hd. destruct Hd as [q [<- Hqin]].
+          destruct (HP q ltac:(apply in_or_app; left; assumption)) as [Hqs [Hqt _]].
+          assert (Hqne : snd q <> mx) by (intros Heq; destruct mx_top as [_ H']; rewrite Heq in Hqt; congruence).
+          assert (Hpq : snd p <> snd q).
+          { intros Heq. rewrite map_app in Hnd. cbn [map] in Hnd. apply NoDup_remove_2 in Hnd. apply Hnd. apply in_or_app. left. rewrite Heq. apply in_map. assumption. }
+          unfold in_group in Hig. cbn [s_groups kimg place] in Hig. unfold mem_z in Hig. cbn [existsb] in Hig. rewrite orb_false_r in Hig.
+          apply Z.eqb_eq in Hig.
+          destruct Hms as [_ [_ [_ [_ [_ Hdis]]]]].
+          unfold overlaps in Ho. unfold kimg in Ho. rewrite ProofsLayout.sig_size_place, (rim_size q Hqs Hqne) in Ho. cbn [s_rel place] in Ho.
+          destruct (Hdis (snd p) (snd q) Hs Hqs Ht Hqt Hpq ltac:(rewrite Hgrp; exact Hig)) as [Hd|Hd]; lia. }
+      cbn [bind sort_by fold_right insert_sorted].
+      replace (map kimg done ++ [place (rim p) (s_rel (snd p)) (Some (s_id mx0)) [g]]) with (map kimg (done ++ [p])).
+      2:{ rewrite map_app. cbn [map]. f_equal. f_equal. unfold kimg. rewrite Hid, Hgrp. reflexivity. }
+      rewrite app_nil_r. reflexivity.
+    Qed.
+
+    Lemma mux_kids : forall mx0 l done,
+      s_id mx0 = mid -> s_gcount mx0 = 2 ^ selw ->
+      (forall p, In p (done ++ l) -> In (snd p) sigs /\ is_topb (snd p) = false /\ s_rel (snd p) + sig_size es (snd p) <= s_gsize mx0) ->
+      NoDup (map snd (done ++ l)) ->
+      fold_left (kstep es1 mx0) (map (ent EI) l) (Ok (map kimg done, [])) = Ok (map kimg (done ++ l), []).
+    Proof.
+      intros mx0 l. induction l as [|p r IH]; intros done Hid Hgc HP Hnd; cbn [map fold_left]; [rewrite app_nil_r; reflexivity|].
+      rewrite mux_kid_step; try assumption.
+      - assert (HI : forall x, x = done ++ p :: r -> (done ++ [p]) ++ r = x) by (intros x ->; rewrite <- app_assoc; reflexivity).
+        pose proof (IH (done ++ [p]) Hid Hgc) as HI2. rewrite (HI _ eq_refl) in HI2. exact (HI2 HP Hnd).
+      - intros q Hq. apply HP. apply in_app_or in Hq. apply in_or_app. destruct Hq as [Hq|[<-|[]]]; [left; assumption|right; left; reflexivity].
+      - replace (done ++ p :: r) with ((done ++ [p]) ++ r) in Hnd by (rewrite <- app_assoc; reflexivity).
+        rewrite map_app in Hnd. eapply NoDup_prefix. exact Hnd.
+    Qed.
+
+    (* ---- the message after the first loop ---- *)
+    Lemma ims_rest : forall S' last0,
+      Permutation sigs S' -> In (mid, mx) (index_from 0 S') ->
+      let X := index_from 0 S' in
+      last0 = last_of (-1) X ->
+      exists gs,
+        (do r2 <- fold_left (f2 st1 (m_size m) last0) (map (ent EI) (filter plainp X)) (Ok ((st1, []), map (ent EI) (filter childp X)));
+         let '((st2, sg), muxed2) := r2 in
+         do (mt, st3) <- import_mux_signal env st2 mpos msgid (m_size m) mid (img mx) muxed2;
+         (let '(st4, sigs0) := (st3, sg) in do sigs' <- msg_insert (is_enums st4) (m_size m) sigs0 mt mstart; Ok (st4, sigs')))
+        = Ok (set_sigmap st1 (((msgid, clear (s_name mx)), (mpos, mid)) :: is_sigmap st1),
+              map timg (filter plainp X) ++ [mx_img gs] ++ map kimg (filter childp X)) /\
+        1 <= gs <= s_gsize mx.
+    Proof.
+      intros S' last0 Hperm Hmid X Hlast0.
+      pose proof Hms as [Hids [Hnames _]].
+      assert (HndS : NoDup S').
+      { eapply Permutation_NoDup; [exact Hperm|]. eapply NoDup_map_inv. exact Hids. }
+      assert (HinS : forall s, In s S' <-> In s sigs) by (intros s; split; intros H; [eapply Permutation_in; [apply Permutation_sym; exact Hperm|exact H]|eapply Permutation_in; eauto]).
+      assert (HX : forall p, In p X -> In (snd p) sigs /\ (fst p = mid <-> snd p = mx)).
+      { intros [i x] Hp. cbn [fst snd]. pose proof (index_from_range _ _ _ _ Hp) as [_ Hx]. split; [apply HinS; assumption|].
+        pose proof (ProofsIds.index_from_fst_nodup S' 0) as Hn1. pose proof (index_from_snd_nodup S' 0 HndS) as Hn2. fold X in Hn1, Hn2. split; intros E; subst.
+        - pose proof (NoDup_map_inj fst X (mid, x) (mid, mx) Hn1 Hp Hmid eq_refl) as Heq. inversion Heq; reflexivity.
+        - pose proof (NoDup_map_inj snd X (i, mx) (mid, mx) Hn2 Hp Hmid eq_refl) as Heq. inversion Heq; reflexivity. }
+      destruct mx_top as [Hmtop Hmt].
+      assert (Himx : ds_muxed (img mx) = false /\ ds_size (img mx) = selw /\ ds_name (img mx) = clear (s_name mx) /\ get_start_bit (img mx) = mstart).
+      { destruct selw_facts as [Hs _]. split; [|split; [|split]]; try (unfold img; rewrite Hmxm; reflexivity).
+        - unfold img. rewrite Hmxm. cbn [ds_size mux_dsig]. apply u32_id. fold selw. lia.
+        - apply start_top; assumption. }
+      destruct Himx as [M1 [M2 [M3 M4]]].
+      assert (Hlast : last0 < mux_end).
+      { subst last0. apply last_bound; [intros p Hp; apply HX; assumption|]. unfold mux_end. destruct selw_facts as [? [? [? [? ?]]]].
+        destruct (proj1 tops_geo mx Hmx Hmt). unfold mstart. lia. }
+      pose proof msize_bounds as Hmb.
+      assert (HTP : forall p, In p (filter plainp X) -> In (snd p) sigs /\ is_topb (snd p) = true /\ is_muxb (snd p) = false).
+      { intros p Hp. apply filter_In in Hp. destruct Hp as [Hp Hpp]. unfold plainp in Hpp. apply andb_true_iff in Hpp. destruct Hpp as [P1 P2].
+        apply negb_true_iff in P2. split; [apply HX; assumption|auto]. }
+      assert (HCH : forall p, In p (filter childp X) -> In (snd p) sigs /\ is_topb (snd p) = false).
+      { intros p Hp. apply filter_In in Hp. destruct Hp as [Hp Hpp]. unfold childp in Hpp. apply negb_true_iff in Hpp. split; [apply HX; assumption|assumption]. }
+      pose proof (loop2 last0 (map (ent EI) (filter childp X)) (filter plainp X) [] Hlast) as E4. cbn [app map] in E4.
+      rewrite E4 by (try assumption; apply NoDup_map_filter; apply index_from_snd_nodup; assumption). cbn [bind].
+      (* the multiplexer *)
+      unfold import_mux_signal. rewrite M2, M3, M4.
+      fold es1. fold (ebit 0 (filter childp X)).
+      destruct (ebit_spec (filter childp X) 0 HCH) as [B1 [B2 B3]].
+      assert (Hbeyond : existsb (fun p : subtree * dsignal => sig_size es1 (fst (fst p)) + get_start_bit (snd p) >? m_size m * 8)
+                          (map (ent EI) (filter childp X)) = false).
+      { destruct (existsb _ _) eqn:E; [|reflexivity]. exfalso. apply existsb_exists in E. destruct E as [e [He Hgt]].
+        apply in_map_iff in He. destruct He as [p [<- Hp]]. destruct (HCH p Hp) as [Hs Ht].
+        rewrite (proj1 (child_entry p Hs Ht)) in Hgt. destruct (child_geo _ Hs Ht) as [_ [_ [_ [G4 _]]]]. unfold cend in Hgt. lia. }
+      rewrite Hbeyond.
+      destruct selw_facts as [Hsw [Hgc [Hg1 [Hgs1 Hg32]]]].
+      replace (selw =? 0) with false by lia.
+      assert (Hcv : calc_value_from_size selw = 2 ^ selw).
+      { unfold calc_value_from_size. replace (selw <=? 0) with false by lia. replace (selw <? 63) with true by lia. reflexivity. }
+      rewrite Hcv. assert (H2p : 0 < 2 ^ selw) by (apply Z.pow_pos_nonneg; lia). replace (2 ^ selw <=? 0) with false by lia.
+      set (eb := ebit 0 (filter childp X)) in *.
+      assert (Hgsz : 1 <= (if eb >? 0 then eb - mstart - selw else 1) <= s_gsize mx).
+      { destruct (eb >? 0) eqn:Eeb; [|lia]. destruct (proj1 tops_geo mx Hmx Hmt) as [T1 _].
+        assert (Hub : eb <= mstart + selw + s_gsize mx).
+        { apply B3; [unfold mstart; lia|]. intros p Hp. destruct (HCH p Hp) as [Hs Ht]. destruct (child_geo _ Hs Ht) as [_ [_ [G3 _]]]. unfold cend. lia. }
+        split; [|lia].
+        destruct (filter childp X) as [|p0 r0] eqn:Ec; [unfold eb, ebit in Eeb; cbn in Eeb; lia|].
+        destruct (HCH p0 (or_introl eq_refl)) as [Hs Ht]. destruct (child_geo _ Hs Ht) as [G1 [G2 _]].
+        pose proof (B2 p0 (or_introl eq_refl)) as Hb. unfold cend in Hb. lia. }
+      set (gs := if eb >? 0 then eb - mstart - selw else 1) in *.
+      replace (gs <=? 0) with false by lia.
+      exists gs. split; [|exact Hgsz].
+      pose proof (mux_kids (mksignal mid (clear (s_name mx)) KMux 0 None [] 0 false fl_one fl_zero fl_zero fl_zero EmptyString 0 (2 ^ selw) gs EmptyString fl_zero 0 [])
+                    (filter childp X) [] eq_refl eq_refl) as EK. cbn [app map] in EK.
+      unfold mux_children.
+      change (fold_left _ (map (ent EI) (filter childp X)) (Ok ([], []))) with
+        (fold_left (kstep es1 (mksignal mid (clear (s_name mx)) KMux 0 None [] 0 false fl_one fl_zero fl_zero fl_zero EmptyString 0 (2 ^ selw) gs EmptyString fl_zero 0 []))
+                   (map (ent EI) (filter childp X)) (Ok ([], []))).
+      rewrite EK.
+      2:{ intros p Hp. destruct (HCH p Hp) as [Hs Ht]. split; [assumption|]. split; [assumption|]. cbn [s_gsize].
+          pose proof (B2 p Hp) as Hb. unfold cend in Hb. unfold gs. destruct (eb >? 0) eqn:Eeb; [lia|].
+          destruct (child_geo _ Hs Ht) as [G1 [G2 _]]. destruct (proj1 tops_geo mx Hmx Hmt) as [T1 _]. unfold mstart in *. lia. }
+      2:{ apply NoDup_map_filter. apply index_from_snd_nodup. assumption. }
+      cbn [bind fst snd app].
+      (* the final insertion of the multiplexer with its children *)
+      pose proof Henvx as Henvx'. unfold desc_of in Henvx'.
+      assert (Hmx1 : (match lookup key_eqb (msgid, clear (s_name mx)) (ie_sig_desc env) with
+                      | Some d => set_desc (mksignal mid (clear (s_name mx)) KMux 0 None [] 0 false fl_one fl_zero fl_zero fl_zero EmptyString 0 (2 ^ selw) gs EmptyString fl_zero 0 []) d
+                      | None => mksignal mid (clear (s_name mx)) KMux 0 None [] 0 false fl_one fl_zero fl_zero fl_zero EmptyString 0 (2 ^ selw) gs EmptyString fl_zero 0 [] end)
+                     = place (mx_img gs) 0 None []).
+      { unfold mx_img. destruct (lookup key_eqb (msgid, clear (s_name mx)) (ie_sig_desc env)); cbn; rewrite <- Henvx'; reflexivity. }
+      rewrite Hmx1. rewrite app_nil_r.
+      assert (Hsw2 : sel_width (mx_img gs) = selw).
+      { unfold sel_width. cbn [s_gcount mx_img]. apply ProofsIds.calc_size_sel. lia. }
+      rewrite msg_insert_ok_g.
+      - cbn [bind]. reflexivity.
+      - cbn [s_name place mx_img]. rewrite map_map. intros Hin. apply in_map_iff in Hin. destruct Hin as [q [Hq Hqin]].
+        destruct (HTP q Hqin) as [Hqs [Hqt Hqm]]. destruct (plain_facts _ Hqs Hqt Hqm) as [_ Hqne].
+        cbn [s_name timg place] in Hq. rewrite rim_name in Hq.
+        apply Hqne. apply (NoDup_map_inj (fun s => clear (s_name s)) sigs); assumption.
+      - intros x Hx Hin. apply in_map_iff in Hx. destruct Hx as [c [<- Hc]]. destruct (HCH c Hc) as [Hcs Hct].
+        assert (Hcne : snd c <> mx) by (intros Heq; rewrite Heq in Hct; congruence).
+        rewrite map_map in Hin. apply in_map_iff in Hin. destruct Hin as [q [Hq Hqin]].
+        destruct (HTP q Hqin) as [Hqs [Hqt Hqm]]. destruct (plain_facts _ Hqs Hqt Hqm) as [_ Hqne].
+        cbn [s_name timg kimg place] in Hq. rewrite !rim_name in Hq.
+        assert (snd q = snd c) by (apply (NoDup_map_inj (fun s => clear (s_name s)) sigs); assumption). congruence.
+      - cbn [map s_name place mx_img]. constructor.
+        + rewrite map_map. intros Hin. apply in_map_iff in Hin. destruct Hin as [c [Hq Hc]]. destruct (HCH c Hc) as [Hcs Hct].
+          assert (Hcne : snd c <> mx) by (intros Heq; rewrite Heq in Hct; congruence).
+          cbn [s_name kimg place] in Hq. rewrite rim_name in Hq.
+          apply Hcne. apply (NoDup_map_inj (fun s => clear (s_name s)) sigs); assumption.
+        + rewrite map_map. 
+          assert (Hext2 : map (fun x => s_name (kimg x)) (filter childp X) = map (fun p => clear (s_name (snd p))) (filter childp X)).
+          { apply map_ext_in. intros c Hc. cbn [s_name kimg place]. apply rim_name. }
+          rewrite Hext2. rewrite <- (map_map snd (fun s => clear (s_name s))).
+          eapply NoDup_map_filter2; [|apply NoDup_map_filter; apply index_from_snd_nodup; assumption].
+          intros a b Ha Hb Hab. apply (NoDup_map_inj (fun s => clear (s_name s)) sigs); try assumption.
+          * apply in_map_iff in Ha. destruct Ha as [pa [<- Hpa]]. apply (HCH pa Hpa).
+          * apply in_map_iff in Hb. destruct Hb as [pb [<- Hpb]]. apply (HCH pb Hpb).
+      - unfold mstart. destruct (proj1 tops_geo mx Hmx Hmt). assumption.
+      - unfold sig_size. cbn [s_kind place mx_img s_gsize]. rewrite sel_width_place, Hsw2. lia.
+      - unfold sig_size. cbn [s_kind place mx_img s_gsize]. rewrite sel_width_place, Hsw2.
+        destruct (proj1 tops_geo mx Hmx Hmt) as [T1 T2]. rewrite sig_size_mx in T2. unfold mstart. lia.
+      - intros d Hd _. apply in_map_iff in Hd. destruct Hd as [q [<- Hqin]].
+        destruct (HTP q Hqin) as [Hqs [Hqt Hqm]]. destruct (plain_facts _ Hqs Hqt Hqm) as [_ Hqne].
+        cbn [is_enums set_sigmap]. fold es1.
+        replace (sig_size es1 (timg q)) with (sig_size es (snd q))
+          by (unfold timg; rewrite ProofsLayout.sig_size_place; symmetry; apply rim_size; assumption).
+        assert (Hmsz : sig_size es1 (place (mx_img gs) 0 None []) = gs + selw)
+          by (unfold sig_size; cbn [s_kind place mx_img s_gsize]; rewrite sel_width_place, Hsw2; reflexivity).
+        rewrite Hmsz. unfold overlaps. cbn [s_rel timg place].
+        destruct (proj2 tops_geo mx (snd q) Hmx Hqs Hmt Hqt (fun E => Hqne (eq_sym E))) as [Hd|Hd]; rewrite ?sig_size_mx in Hd; unfold mstart in *; lia.
+    Qed.
+  End WithEI.
 
   Lemma ims_mux : forall st S' dname dtx D,
     Permutation sigs S' -> In (mid, mx) (index_from 0 S') ->
     sort_by (fun a b => get_start_bit a <? get_start_bit b) D = map img S' ->
+    Inv st -> ProofsEnum.st_le st0 st ->
     let X := index_from 0 S' in
-    exists st',
+    exists st' EI gs,
       import_message_signals env st mpos (mkdmessage msgid dname (u32 (m_size m)) dtx D)
-      = Ok (st', map timg (filter plainp X) ++ [mx_img (gsize_of (is_enums st) X)] ++ map kimg (filter childp X)) /\
-      is_enums st' = is_enums st /\ is_enum_refs st' = is_enum_refs st /\
-      1 <= gsize_of (is_enums st) X <= s_gsize mx /\
+      = Ok (st', map (timg EI) (filter plainp X) ++ [mx_img gs] ++ map (kimg EI) (filter childp X)) /\
+      Inv st' /\ ProofsEnum.st_le st st' /\
+      1 <= gs <= s_gsize mx /\
+      (forall s, In s sigs -> s <> mx -> EIok es st' s (EI s)) /\
       (forall p, In p X -> lookup key_eqb (msgid, clear (s_name (snd p))) (is_sigmap st') = Some (mpos, fst p)) /\
       (forall k, (forall s, In s sigs -> k <> (msgid, clear (s_name s))) -> lookup key_eqb k (is_sigmap st') = lookup key_eqb k (is_sigmap st)).
   Proof.
-    intros st S' dname dtx D Hperm Hmid Hsort X.
+    intros st S' dname dtx D Hperm Hmid Hsort HI Hle X.
     pose proof Hms as [Hids [Hnames _]].
     assert (HndS : NoDup S').
     { eapply Permutation_NoDup; [exact Hperm|]. eapply NoDup_map_inv. exact Hids. }
@@ -982,128 +1271,33 @@ Section MuxImport.
         rewrite HA, HB. reflexivity. }
       rewrite G2. reflexivity. }
     destruct mx_top as [Hmtop Hmt].
-    assert (Himx : ds_muxed (img mx) = false /\ ds_size (img mx) = selw /\ ds_name (img mx) = clear (s_name mx) /\ get_start_bit (img mx) = mstart).
-    { destruct selw_facts as [Hs _]. split; [|split; [|split]]; try (unfold img; rewrite Hmxm; reflexivity).
-      - unfold img. rewrite Hmxm. cbn [ds_size mux_dsig]. apply u32_id. fold selw. lia.
-      - apply start_top; assumption. }
-    destruct Himx as [M1 [M2 [M3 M4]]].
+    assert (M1 : ds_muxed (img mx) = false) by (unfold img; rewrite Hmxm; reflexivity).
+    assert (M4 : get_start_bit (img mx) = mstart) by (apply start_top; assumption).
     unfold import_message_signals. cbv zeta. cbn [dm_signals dm_id dm_size]. rewrite Hsort, index_from_map_img. fold X. rewrite Hfil.
     rewrite M1.
-    destruct (loop1 X st [] [] (-1) HX (index_from_snd_nodup S' 0 HndS)) as [st1 [E1 [E2 [E3 [E4s E5s]]]]]. cbn [app] in E1.
+    destruct (loop1 X st [] [] (-1) HX (index_from_snd_nodup S' 0 HndS) HI Hle) as [st1 [EI [E1 [I1 [L1 [K1 [E4s E5s]]]]]]]. cbn [app] in E1.
     change (fold_left _ (map (fun p => (fst p, img (snd p))) X) (Ok (st, [], [], -1))) with
       (fold_left f1 (map (fun p => (fst p, img (snd p))) X) (Ok (st, [], [], -1))).
     rewrite E1. cbn [bind]. rewrite M4.
-    assert (Hlast : last_of (-1) X < mux_end).
-    { apply last_bound; [intros p Hp; apply HX; assumption|]. unfold mux_end. destruct selw_facts as [? [? [? [? ?]]]].
-      destruct (proj1 tops_geo mx Hmx Hmt). unfold mstart. lia. }
     pose proof msize_bounds as Hmb. rewrite (u32_id (m_size m)) by lia.
-    assert (HTP : forall p, In p (filter plainp X) -> In (snd p) sigs /\ is_topb (snd p) = true /\ is_muxb (snd p) = false).
-    { intros p Hp. apply filter_In in Hp. destruct Hp as [Hp Hpp]. unfold plainp in Hpp. apply andb_true_iff in Hpp. destruct Hpp as [P1 P2].
-      apply negb_true_iff in P2. split; [apply HX; assumption|auto]. }
-    assert (HCH : forall p, In p (filter childp X) -> In (snd p) sigs /\ is_topb (snd p) = false).
-    { intros p Hp. apply filter_In in Hp. destruct Hp as [Hp Hpp]. unfold childp in Hpp. apply negb_true_iff in Hpp. split; [apply HX; assumption|assumption]. }
-    pose proof (loop2 st1 (last_of (-1) X) (map ent (filter childp X)) (filter plainp X) [] Hlast) as E4. cbn [app map] in E4.
-    change (fold_left _ (map ent (filter plainp X)) (Ok (st1, [], map ent (filter childp X)))) with
-      (fold_left (f2 st1 (m_size m) (last_of (-1) X)) (map ent (filter plainp X)) (Ok (st1, [], map ent (filter childp X)))).
-    rewrite E4 by (try assumption; apply NoDup_map_filter; apply index_from_snd_nodup; assumption). cbn [bind].
-    (* the multiplexer *)
-    unfold import_mux_signal. rewrite M2, M3, M4.
-    fold (ebit (is_enums st1) 0 (filter childp X)).
-    destruct (ebit_spec (is_enums st1) (filter childp X) 0 HCH) as [B1 [B2 B3]].
-    assert (Hbeyond : existsb (fun p : subtree * dsignal => sig_size (is_enums st1) (fst (fst p)) + get_start_bit (snd p) >? m_size m * 8)
-                        (map ent (filter childp X)) = false).
-    { destruct (existsb _ _) eqn:E; [|reflexivity]. exfalso. apply existsb_exists in E. destruct E as [e [He Hgt]].
-      apply in_map_iff in He. destruct He as [p [<- Hp]]. destruct (HCH p Hp) as [Hs Ht].
-      rewrite (proj1 (child_entry (is_enums st1) p Hs Ht)) in Hgt. destruct (child_geo _ Hs Ht) as [_ [_ [_ [G4 _]]]]. unfold cend in Hgt. lia. }
-    rewrite Hbeyond.
-    destruct selw_facts as [Hsw [Hgc [Hg1 [Hgs1 Hg32]]]].
-    replace (selw =? 0) with false by lia.
-    assert (Hcv : calc_value_from_size selw = 2 ^ selw).
-    { unfold calc_value_from_size. replace (selw <=? 0) with false by lia. replace (selw <? 63) with true by lia. reflexivity. }
-    rewrite Hcv. assert (H2p : 0 < 2 ^ selw) by (apply Z.pow_pos_nonneg; lia). replace (2 ^ selw <=? 0) with false by lia.
-    set (eb := ebit (is_enums st1) 0 (filter childp X)) in *.
-    assert (Hgsz : 1 <= (if eb >? 0 then eb - mstart - selw else 1) <= s_gsize mx).
-    { destruct (eb >? 0) eqn:Eeb; [|lia]. destruct (proj1 tops_geo mx Hmx Hmt) as [T1 _].
-      assert (Hub : eb <= mstart + selw + s_gsize mx).
-      { apply B3; [unfold mstart; lia|]. intros p Hp. destruct (HCH p Hp) as [Hs Ht]. destruct (child_geo _ Hs Ht) as [_ [_ [G3 _]]]. unfold cend. lia. }
-      split; [|lia].
-      destruct (filter childp X) as [|p0 r0] eqn:Ec; [unfold eb, ebit in Eeb; cbn in Eeb; lia|].
-      destruct (HCH p0 (or_introl eq_refl)) as [Hs Ht]. destruct (child_geo _ Hs Ht) as [G1 [G2 _]].
-      pose proof (B2 p0 (or_introl eq_refl)) as Hb. unfold cend in Hb. lia. }
-    set (gs := if eb >? 0 then eb - mstart - selw else 1) in *.
-    replace (gs <=? 0) with false by lia.
-    pose proof (mux_kids (is_enums st1) (mksignal mid (clear (s_name mx)) KMux 0 None [] 0 false fl_one fl_zero fl_zero fl_zero EmptyString 0 (2 ^ selw) gs EmptyString fl_zero 0 [])
-                  (filter childp X) [] eq_refl eq_refl) as EK. cbn [app map] in EK.
-    unfold mux_children.
-    change (fold_left _ (map ent (filter childp X)) (Ok ([], []))) with
-      (fold_left (kstep (is_enums st1) (mksignal mid (clear (s_name mx)) KMux 0 None [] 0 false fl_one fl_zero fl_zero fl_zero EmptyString 0 (2 ^ selw) gs EmptyString fl_zero 0 []))
-                 (map ent (filter childp X)) (Ok ([], []))).
-    rewrite EK.
-    2:{ intros p Hp. destruct (HCH p Hp) as [Hs Ht]. split; [assumption|]. split; [assumption|]. cbn [s_gsize].
-        pose proof (B2 p Hp) as Hb. unfold cend in Hb. unfold gs. destruct (eb >? 0) eqn:Eeb; [lia|].
-        destruct (child_geo _ Hs Ht) as [G1 [G2 _]]. destruct (proj1 tops_geo mx Hmx Hmt) as [T1 _]. unfold mstart in *. lia. }
-    2:{ apply NoDup_map_filter. apply index_from_snd_nodup. assumption. }
-    cbn [bind fst snd app].
-    (* the final insertion of the multiplexer with its children *)
-    unfold desc_of in Henvx.
-    assert (Hmx1 : (match lookup key_eqb (msgid, clear (s_name mx)) (ie_sig_desc env) with
-                    | Some d => set_desc (mksignal mid (clear (s_name mx)) KMux 0 None [] 0 false fl_one fl_zero fl_zero fl_zero EmptyString 0 (2 ^ selw) gs EmptyString fl_zero 0 []) d
-                    | None => mksignal mid (clear (s_name mx)) KMux 0 None [] 0 false fl_one fl_zero fl_zero fl_zero EmptyString 0 (2 ^ selw) gs EmptyString fl_zero 0 [] end)
-                   = place (mx_img gs) 0 None []).
-    { unfold mx_img. destruct (lookup key_eqb (msgid, clear (s_name mx)) (ie_sig_desc env)); cbn; rewrite <- Henvx; reflexivity. }
-    rewrite Hmx1. rewrite app_nil_r.
-    assert (Hsw2 : sel_width (mx_img gs) = selw).
-    { unfold sel_width. cbn [s_gcount mx_img]. apply ProofsIds.calc_size_sel. lia. }
-    rewrite msg_insert_ok_g.
-    - cbn [bind]. exists (set_sigmap st1 (((msgid, clear (s_name mx)), (mpos, mid)) :: is_sigmap st1)).
-      split; [|split; [exact E2|split; [exact E3|split; [|split]]]].
-      + f_equal. f_equal. f_equal. f_equal. unfold gsize_of. rewrite <- E2. reflexivity.
-      + unfold gsize_of. rewrite <- E2. fold eb. exact Hgsz.
-      + intros p Hp. cbn [is_sigmap set_sigmap]. destruct (HX p Hp) as [Hps Hpm].
-        destruct p as [i x]. cbn [fst snd] in *.
-        assert (Hdec : x = mx \/ x <> mx).
-        { destruct (Z.eq_dec i mid) as [E|E]; [left; apply Hpm; exact E|right; intros Ex; apply E; apply Hpm; exact Ex]. }
-        destruct Hdec as [->|Hxne].
-        * assert (i = mid) by (apply Hpm; reflexivity). subst i. apply lookup_key_head.
-        * rewrite lookup_key_skip.
-          -- apply (E4s (i, x) Hp Hxne).
-          -- intros Heq. inversion Heq as [Hq]. apply Hxne. apply (NoDup_map_inj (fun s => clear (s_name s)) sigs); assumption.
-      + intros k Hk. cbn [is_sigmap set_sigmap]. rewrite lookup_key_skip by (apply Hk; exact Hmx).
-        apply E5s. intros p Hp. apply Hk. apply HX. assumption.
-    - cbn [s_name place mx_img]. rewrite map_map. intros Hin. apply in_map_iff in Hin. destruct Hin as [q [Hq Hqin]].
-      destruct (HTP q Hqin) as [Hqs [Hqt Hqm]]. destruct (plain_facts _ Hqs Hqt Hqm) as [_ [_ [_ Hqne]]].
-      cbn [s_name timg place std_imp] in Hq. rewrite (proj1 (img_fields (snd q) Hqs Hqne)) in Hq.
-      apply Hqne. apply (NoDup_map_inj (fun s => clear (s_name s)) sigs); assumption.
-    - intros x Hx Hin. apply in_map_iff in Hx. destruct Hx as [c [<- Hc]]. destruct (HCH c Hc) as [Hcs Hct].
-      assert (Hcne : snd c <> mx) by (intros Heq; rewrite Heq in Hct; congruence).
-      rewrite map_map in Hin. apply in_map_iff in Hin. destruct Hin as [q [Hq Hqin]].
-      destruct (HTP q Hqin) as [Hqs [Hqt Hqm]]. destruct (plain_facts _ Hqs Hqt Hqm) as [_ [_ [_ Hqne]]].
-      cbn [s_name timg kimg place std_imp] in Hq. rewrite (proj1 (img_fields (snd q) Hqs Hqne)), (proj1 (img_fields (snd c) Hcs Hcne)) in Hq.
-      assert (snd q = snd c) by (apply (NoDup_map_inj (fun s => clear (s_name s)) sigs); assumption). congruence.
-    - cbn [map s_name place mx_img]. constructor.
-      + rewrite map_map. intros Hin. apply in_map_iff in Hin. destruct Hin as [c [Hq Hc]]. destruct (HCH c Hc) as [Hcs Hct].
-        assert (Hcne : snd c <> mx) by (intros Heq; rewrite Heq in Hct; congruence).
-        cbn [s_name kimg place std_imp] in Hq. rewrite (proj1 (img_fields (snd c) Hcs Hcne)) in Hq.
-        apply Hcne. apply (NoDup_map_inj (fun s => clear (s_name s)) sigs); assumption.
-      + rewrite map_map. 
-        assert (Hext2 : map (fun x => s_name (kimg x)) (filter childp X) = map (fun p => clear (s_name (snd p))) (filter childp X)).
-        { apply map_ext_in. intros c Hc. destruct (HCH c Hc) as [Hcs Hct].
-          assert (Hcne : snd c <> mx) by (intros Heq; rewrite Heq in Hct; congruence).
-          cbn [s_name kimg place std_imp]. apply (img_fields (snd c) Hcs Hcne). }
-        rewrite Hext2. rewrite <- (map_map snd (fun s => clear (s_name s))).
-        eapply NoDup_map_filter2; [|apply NoDup_map_filter; apply index_from_snd_nodup; assumption].
-        intros a b Ha Hb Hab. apply (NoDup_map_inj (fun s => clear (s_name s)) sigs); try assumption.
-        * apply in_map_iff in Ha. destruct Ha as [pa [<- Hpa]]. apply (HCH pa Hpa).
-        * apply in_map_iff in Hb. destruct Hb as [pb [<- Hpb]]. apply (HCH pb Hpb).
-    - unfold mstart. destruct (proj1 tops_geo mx Hmx Hmt). assumption.
-    - unfold sig_size. cbn [s_kind place mx_img s_gsize]. rewrite sel_width_place, Hsw2. lia.
-    - unfold sig_size. cbn [s_kind place mx_img s_gsize]. rewrite sel_width_place, Hsw2.
-      destruct (proj1 tops_geo mx Hmx Hmt) as [T1 T2]. rewrite sig_size_mx in T2. unfold mstart. lia.
-    - intros d Hd _. apply in_map_iff in Hd. destruct Hd as [q [<- Hqin]].
-      destruct (HTP q Hqin) as [Hqs [Hqt Hqm]]. destruct (plain_facts _ Hqs Hqt Hqm) as [_ [Hqsz [_ Hqne]]].
-      unfold sig_size, overlaps. cbn [s_kind s_rel s_size s_gsize timg place std_imp mx_img]. rewrite sel_width_place, Hsw2.
-      rewrite (proj1 (proj2 (img_fields (snd q) Hqs Hqne))).
-      destruct (proj2 tops_geo mx (snd q) Hmx Hqs Hmt Hqt (fun E => Hqne (eq_sym E))) as [Hd|Hd]; rewrite ?sig_size_mx, ?Hqsz in Hd; unfold mstart in *; lia.
+    assert (HEI : forall s, In s sigs -> s <> mx -> EIok es st1 s (EI s)).
+    { intros s Hs Hne. assert (Hs' : In s S') by (apply HinS; assumption). destruct (in_index_from S' 0 s Hs') as [i Hi]. apply (K1 (i, s) Hi Hne). }
+    destruct (ims_rest EI st1 HEI S' (last_of (-1) X) Hperm Hmid eq_refl) as [gs [Er Hgs]]. fold X in Er.
+    exists (set_sigmap st1 (((msgid, clear (s_name mx)), (mpos, mid)) :: is_sigmap st1)), EI, gs.
+    split; [exact Er|]. split; [exact I1|]. split.
+    { eapply ProofsEnum.st_le_trans; [destruct HI as [R _]; exact R|exact L1|apply ProofsEnum.st_le_sigmap]. }
+    split; [exact Hgs|]. split; [exact HEI|]. split.
+    - intros p Hp. cbn [is_sigmap set_sigmap]. destruct (HX p Hp) as [Hps Hpm].
+      destruct p as [i x]. cbn [fst snd] in *.
+      assert (Hdec : x = mx \/ x <> mx).
+      { destruct (Z.eq_dec i mid) as [E|E]; [left; apply Hpm; exact E|right; intros Ex; apply E; apply Hpm; exact Ex]. }
+      destruct Hdec as [->|Hxne].
+      * assert (i = mid) by (apply Hpm; reflexivity). subst i. apply lookup_key_head.
+      * rewrite lookup_key_skip.
+        -- apply (E4s (i, x) Hp Hxne).
+        -- intros Heq. inversion Heq as [Hq]. apply Hxne. apply (NoDup_map_inj (fun s => clear (s_name s)) sigs); assumption.
+    - intros k Hk. cbn [is_sigmap set_sigmap]. rewrite lookup_key_skip by (apply Hk; exact Hmx).
+      apply E5s. intros p Hp. apply Hk. apply HX. assumption.
   Qed.
 
   (* ---- what the exporter wrote is the image of a permutation of the signals ---- *)
@@ -1111,10 +1305,10 @@ Section MuxImport.
     flat_map (fun id => filter (fun c => in_group c id) (children sigs mx)) (zrange 0 (Z.to_nat (s_gcount mx))).
   Definition S0 : list signal := flat_map (fun t => t :: (if is_muxb t then walk_kids else [])) (filter is_topb sigs).
 
-  Lemma kids_children : kids_ok sigs mx.
+  Lemma kids_children : kids_ok es sigs mx.
   Proof using Hmm Hmx Hmxm. eapply kids_ok_of; eauto. Qed.
 
-  Lemma child_in_sigs : forall c, In c (children sigs mx) -> In c sigs /\ is_topb c = false /\ child_ok mx c.
+  Lemma child_in_sigs : forall c, In c (children sigs mx) -> In c sigs /\ is_topb c = false /\ child_ok es mx c.
   Proof using Hmm Hmx Hmxm.
     intros c Hc. destruct kids_children as [HK _]. rewrite Forall_forall in HK. pose proof (HK c Hc) as Hok.
     unfold children in Hc. apply Proofs.In_sort_by in Hc. apply filter_In in Hc. destruct Hc as [Hc Hp].
@@ -1136,14 +1330,14 @@ Section MuxImport.
         destruct (child_in_sigs c Hc) as [Hcs [Hct Hok]].
         assert (Hcne : c <> mx) by (intros ->; destruct mx_top as [_ H']; congruence).
         destruct (other_sig c Hcs Hcne) as [Hnm _]. unfold img. rewrite Hnm, Hct.
-        rewrite (in_group_grp mx c id Hok) in Hg. apply Z.eqb_eq in Hg. rewrite Hg. reflexivity.
+        rewrite (in_group_grp es mx c id Hok) in Hg. apply Z.eqb_eq in Hg. rewrite Hg. reflexivity.
       - unfold img. rewrite Em, Htt. unfold is_muxb in Em. destruct (s_kind t); try discriminate; reflexivity. }
     apply G. intros t Ht. apply filter_In in Ht. exact Ht.
   Qed.
 
   Lemma S0_perm : Permutation sigs S0.
   Proof using Hmm Hmx Hmxm.
-    clear Henv Henvx Hext.
+    clear Henv Henvx Hext Hrv0.
     pose proof Hms as [Hids [_ [_ [Hu [Hch _]]]]].
     assert (Hnd : NoDup sigs) by (eapply NoDup_map_inv; exact Hids).
     destruct mx_top as [_ Hmt].
@@ -1159,7 +1353,7 @@ Section MuxImport.
     assert (P2 : Permutation walk_kids (filter (fun s => negb (is_topb s)) sigs)).
     { unfold walk_kids.
       assert (Hfe : forall id, filter (fun c => in_group c id) (children sigs mx) = filter (fun c => id =? grp c) (children sigs mx)).
-      { intros id. apply filter_ext_in. intros c Hc. destruct (child_in_sigs c Hc) as [_ [_ Hok]]. apply (in_group_grp mx c id Hok). }
+      { intros id. apply filter_ext_in. intros c Hc. destruct (child_in_sigs c Hc) as [_ [_ Hok]]. apply (in_group_grp es mx c id Hok). }
       rewrite (flat_map_ext_in_simple _ (fun id => filter (fun c => id =? grp c) (children sigs mx))) by (intros id _; apply Hfe).
       eapply Permutation_trans; [apply walk_perm|].
       rewrite filter_all.
@@ -1178,39 +1372,39 @@ Section MuxImport.
 End MuxImport.
 
 (* ---------------- a message with a multiplexer, as a whole ---------------- *)
-Definition mux_result (es : list enum_def) (env : ienv) (m : message) (mx : signal) (mid gs : Z) (S' : list signal) : list signal :=
+Definition mux_result (mx : signal) (mid gs : Z) (EI : signal -> Z) (S' : list signal) : list signal :=
   let X := index_from 0 S' in
-  map (timg es env m mx) (filter plainp X) ++ [mx_img mx mid gs] ++ map (kimg es env m mx mid) (filter childp X).
+  map (timg EI) (filter plainp X) ++ [mx_img mx mid gs] ++ map (kimg mid EI) (filter childp X).
 
 Lemma img_common : forall es m mx s,
   ds_order (img es m mx s) = m_order m /\ ds_receivers (img es m mx s) = recs_out m.
 Proof.
-  intros es m mx s. unfold img. destruct (is_muxb s); [split; reflexivity|]. destruct (is_topb s); [|split; reflexivity].
+  intros es m mx s. unfold img. destruct (is_muxb s); [split; reflexivity|].
+  destruct (is_topb s); [|unfold child_dsig; destruct (s_kind s); split; reflexivity].
   destruct (dsig_e_fields es (m_order m) (recs_out m) s) as [H1 [H2 _]]. split; assumption.
 Qed.
 
-Lemma import_message_mux : forall es env names nodes st done m mx,
+Lemma import_message_mux : forall es env st0 names nodes st done m mx,
   mmessage es names m -> In mx (m_signals m) -> is_muxb mx = true ->
-  (forall s, In s (m_signals m) -> is_muxb s = false ->
-     lookup key_eqb (u32 (m_canid m), clear (s_name s)) (ie_sig_enums env) = None /\
-     desc_of key_eqb (u32 (m_canid m), clear (s_name s)) (ie_sig_desc env) = s_desc s) ->
+  (forall s, In s (m_signals m) -> is_muxb s = false -> env_sig es env st0 (u32 (m_canid m)) s /\ enum_wf (e_of es s)) ->
   desc_of key_eqb (u32 (m_canid m), clear (s_name mx)) (ie_sig_desc env) = s_desc mx ->
-  ie_ext_muxes env = [] ->
+  ie_ext_muxes env = [] -> ProofsEnum.refs_valid st0 -> Inv st -> ProofsEnum.st_le st0 st ->
   desc_of Z.eqb (u32 (m_canid m)) (ie_msg_desc env) = m_desc m ->
   (forall r, In r names -> In (clear r) (map n_name nodes)) ->
   (forall r, In r names -> clear r <> dummy_node) ->
   ~ In (m_canid m) (map m_canid done) ->
   ~ In (clear (m_sender m), clear (m_name m)) (map (fun x => (m_sender x, m_name x)) done) ->
-  exists st' S' mid gs,
+  exists st' S' mid gs EI,
     import_message env (st, done) nodes (dmsg_m es m)
     = Ok (st', done ++ [mkmessage (m_canid m) (clear (m_name m)) (m_size m) (m_order m) 0 0 0 0
-                                  (clear (m_sender m)) (recs_in m) (m_desc m) [] (mux_result es env m mx mid gs S')]) /\
+                                  (clear (m_sender m)) (recs_in m) (m_desc m) [] (mux_result mx mid gs EI S')]) /\
     Permutation (m_signals m) S' /\ In (mid, mx) (index_from 0 S') /\ 1 <= gs <= s_gsize mx /\
-    is_enums st' = is_enums st /\ is_enum_refs st' = is_enum_refs st /\
+    Inv st' /\ ProofsEnum.st_le st st' /\
+    (forall s, In s (m_signals m) -> s <> mx -> EIok es st' s (EI s)) /\
     (forall p, In p (index_from 0 S') -> lookup key_eqb (u32 (m_canid m), clear (s_name (snd p))) (is_sigmap st') = Some (length done, fst p)) /\
     (forall k, (forall s, In s (m_signals m) -> k <> (u32 (m_canid m), clear (s_name s))) -> lookup key_eqb k (is_sigmap st') = lookup key_eqb k (is_sigmap st)).
 Proof.
-  intros es env names nodes st done m mx Hmm Hmx Hmxm Henv Henvx Hext Hmd Hnodes Hnd Hcan Hpair.
+  intros es env st0 names nodes st done m mx Hmm Hmx Hmxm Henv Henvx Hext Hrv0 HI Hle Hmd Hnodes Hnd Hcan Hpair.
   pose proof Hmm as [Ha [Hc [Hdl [Hsd [Hst [Hid [Hsz [Hms [Hlay [Hsn [Hrc [Hrn Hre]]]]]]]]]]]].
   (* the sorted signal list is the image of a permutation *)
   pose proof (D_img es m mx names Hmm Hmx Hmxm) as HD.
@@ -1224,10 +1418,10 @@ Proof.
   destruct Hsorted as [S' [Hsort HpS]].
   assert (HmxS : In mx S') by (eapply Permutation_in; eauto).
   destruct (in_index_from S' 0 mx HmxS) as [mid Hmid].
-  destruct (ims_mux es env (length done) m mx names Hmm Hmx Hmxm Henv Henvx Hext mid st S' (clear (m_name m)) (clear (m_sender m)) D HpS Hmid Hsort)
-    as [st' [Hsig [He1 [He2 [Hgs [Hsm1 Hsm2]]]]]].
-  exists st', S', mid, (gsize_of es env m mx (is_enums st) (index_from 0 S')).
-  split; [|exact (conj HpS (conj Hmid (conj Hgs (conj He1 (conj He2 (conj Hsm1 Hsm2))))))].
+  destruct (ims_mux es env (length done) m mx names st0 Hmm Hmx Hmxm Henv Henvx Hext Hrv0 mid st S' (clear (m_name m)) (clear (m_sender m)) D HpS Hmid Hsort HI Hle)
+    as [st' [EI [gs [Hsig [HI' [Hle' [Hgs [HEI [Hsm1 Hsm2]]]]]]]]].
+  exists st', S', mid, gs, EI.
+  split; [|exact (conj HpS (conj Hmid (conj Hgs (conj HI' (conj Hle' (conj HEI (conj Hsm1 Hsm2)))))))].
   unfold import_message. cbv zeta. unfold dmsg_m. cbn [dm_signals dm_id dm_size dm_tx dm_name]. fold D.
   unfold desc_of in Hmd. rewrite Hmd. rewrite Hsort.
   destruct S' as [|s0 sr] eqn:ES; [destruct HmxS|]. rewrite <- ES in *.
@@ -1270,31 +1464,30 @@ Proof.
   rewrite (u32_id (m_size m)) by lia. replace (m_size m >? 8) with false by lia.
   rewrite (u32_id (m_canid m)) by lia. rewrite (not_in_mem_z _ _ Hcan).
   rewrite (u32_id (m_canid m)) in Hsig by lia. rewrite (u32_id (m_size m)) in Hsig by lia.
-  match goal with |- bind ?x ?k = _ => replace x with (@Ok (istate * list signal) (st', mux_result es env m mx mid (gsize_of es env m mx (is_enums st) (index_from 0 S')) S')) end.
+  match goal with |- bind ?x ?k = _ => replace x with (@Ok (istate * list signal) (st', mux_result mx mid gs EI S')) end.
   cbn [bind]. reflexivity.
 Qed.
 
 (* ---------------- projection of a message with a multiplexer ---------------- *)
 From Acme.C11 Require RoundTripAttr.
-
 Section MuxProj.
-  Variables (es : list enum_def) (env : ienv) (names : list string) (m : message) (mx : signal) (mid gs : Z) (S' : list signal).
+  Variables (es : list enum_def) (st : istate) (names : list string) (m : message) (mx : signal) (mid gs : Z) (EI : signal -> Z) (S' : list signal).
   Hypothesis Hmm : mmessage es names m.
   Hypothesis Hmx : In mx (m_signals m).
   Hypothesis Hmxm : is_muxb mx = true.
-  Hypothesis Henv : forall s, In s (m_signals m) -> is_muxb s = false ->
-     lookup key_eqb (u32 (m_canid m), clear (s_name s)) (ie_sig_enums env) = None /\
-     desc_of key_eqb (u32 (m_canid m), clear (s_name s)) (ie_sig_desc env) = s_desc s.
+  Hypothesis Hwf : forall s, In s (m_signals m) -> enum_wf (e_of es s).
+  Hypothesis HEI : forall s, In s (m_signals m) -> s <> mx -> EIok es st s (EI s).
   Hypothesis HpS : Permutation (m_signals m) S'.
   Hypothesis Hmid : In (mid, mx) (index_from 0 S').
   Let sigs := m_signals m.
   Let X := index_from 0 S'.
-  Let R := mux_result es env m mx mid gs S'.
+  Let R := mux_result mx mid gs EI S'.
+  Let es' := is_enums st.
   Let Hms : msigs_ok es sigs. Proof. destruct Hmm as [_ [_ [_ [_ [_ [_ [_ [H _]]]]]]]]. exact H. Qed.
 
   Definition Fimg (p : Z * signal) : signal :=
     if is_muxb (snd p) then mx_img mx (fst p) gs
-    else if is_topb (snd p) then timg es env m mx p else kimg es env m mx mid p.
+    else if is_topb (snd p) then timg EI p else kimg mid EI p.
   Definition Y : list (Z * signal) := filter plainp X ++ [(mid, mx)] ++ filter childp X.
 
   Lemma HndS : NoDup S'.
@@ -1324,7 +1517,10 @@ Section MuxProj.
   Qed.
 
   Lemma mx_is_top : is_topb mx = true.
-  Proof. exact (proj2 (mx_top es m mx names Hmm Hmx Hmxm)). Qed.
+  Proof.
+    destruct Hms as [_ [_ [_ [_ [Hch _]]]]]. destruct (is_topb mx) eqn:Et; [reflexivity|]. exfalso.
+    destruct (Hch mx Hmx Et) as [p [_ [_ [_ [Hk _]]]]]. unfold is_muxb in Hmxm. destruct (s_kind mx); try discriminate. apply Hk. reflexivity.
+  Qed.
 
   Lemma XY_perm : Permutation X Y.
   Proof.
@@ -1354,7 +1550,20 @@ Section MuxProj.
   Qed.
 
   Lemma Fimg_id : forall p, s_id (Fimg p) = fst p.
-  Proof. intros p. unfold Fimg. destruct (is_muxb (snd p)); [reflexivity|]. destruct (is_topb (snd p)); reflexivity. Qed.
+  Proof.
+    intros p. unfold Fimg. destruct (is_muxb (snd p)); [reflexivity|].
+    destruct (is_topb (snd p)); cbn [s_id timg kimg place]; apply (rimg_fields (fst p) (snd p) (EI (snd p))).
+  Qed.
+
+  Lemma Fimg_facts : forall p, In p X ->
+    s_name (Fimg p) = clear (s_name (snd p)) /\ s_attrs (Fimg p) = [] /\ s_startval (Fimg p) = fl_zero /\ s_sendtype (Fimg p) = 0.
+  Proof.
+    intros p Hp. pose proof (X_in p Hp) as Hs. destruct Hms as [_ [_ [_ [Hu _]]]].
+    unfold Fimg. destruct (is_muxb (snd p)) eqn:Em.
+    - rewrite (Hu (snd p) mx Hs Hmx Em Hmxm). cbn. auto.
+    - destruct (rimg_fields (fst p) (snd p) (EI (snd p))) as [_ [F2 [_ [F4 [F5 F6]]]]].
+      destruct (is_topb (snd p)); cbn [s_name s_attrs s_startval s_sendtype timg kimg place]; auto.
+  Qed.
 
   Lemma R_ids : NoDup (map s_id R).
   Proof.
@@ -1365,9 +1574,7 @@ Section MuxProj.
   Lemma mx_in_R : In (mx_img mx mid gs) R.
   Proof. unfold R, mux_result. apply in_or_app. right. left. reflexivity. Qed.
 
-  Hypothesis Henvx : desc_of key_eqb (u32 (m_canid m), clear (s_name mx)) (ie_sig_desc env) = s_desc mx.
   Hypothesis Hgs : 1 <= gs.
-  Variable es' : list enum_def.
 
   Lemma find_mx : find_sig R mid = Some (mx_img mx mid gs).
   Proof. apply (ProofsIds.find_sig_unique R (mx_img mx mid gs) R_ids mx_in_R). Qed.
@@ -1382,6 +1589,21 @@ Section MuxProj.
   Proof.
     destruct (selw_facts es m mx names Hmm Hmx Hmxm) as [Hs _].
     unfold sel_width at 1. cbn [s_gcount mx_img]. apply ProofsIds.calc_size_sel. lia.
+  Qed.
+
+  (* the data part of the projection of an imported standard / enum signal *)
+  Lemma rimg_proj : forall id s, In s sigs -> s <> mx -> s_kind s <> KMux ->
+    let x := rimg id s (EI s) in
+    s_kind x = s_kind s /\ sig_size es' x = sig_size es s /\
+    (s_kind s = KStandard -> s_signed x = s_signed s /\ s_scale x = s_scale s /\ s_offset x = s_offset s /\ s_min x = s_min s /\
+                             s_max x = s_max s /\ s_unit x = s_unit s) /\
+    (s_kind s = KEnum -> sorted_enum_values (nth_enum es' (s_enum x)) = sorted_enum_values (nth_enum es (s_enum s))).
+  Proof.
+    intros id s Hs Hne Hk x. pose proof (HEI s Hs Hne) as HE. pose proof (Hwf s Hs) as Hw.
+    split; [unfold x, rimg; destruct (s_kind s); try reflexivity; exfalso; apply Hk; reflexivity|].
+    split; [apply rimg_size; assumption|]. split.
+    - intros E. unfold x, rimg. rewrite E. cbn. auto 10.
+    - intros E. destruct (HE E) as [_ [Hv _]]. unfold x, rimg. rewrite E. cbn [s_enum]. unfold es'. rewrite Hv. rewrite (evals_id _ Hw). reflexivity.
   Qed.
 
   Lemma proj_pt : forall p, In p X -> proj_signal es' R (Fimg p) = proj_signal es sigs (snd p).
@@ -1400,32 +1622,34 @@ Section MuxProj.
       cbn [s_kind s_name s_rel s_parent s_groups s_desc s_startval s_sendtype s_attrs mx_img]. rewrite selw_img, ?Ek, Hp0, Hv0, Ht0, Ha0, clear_spaces_idem. reflexivity.
     - assert (Hne : snd p <> mx) by (intros Heq; rewrite Heq in Em; congruence).
       destruct (other_sig es m mx names Hmm Hmx Hmxm (snd p) Hs Hne) as [_ [Hk Hc]].
-      destruct (Henv (snd p) Hs Em) as [_ Hd].
+      destruct (rimg_proj (fst p) (snd p) Hs Hne Hk) as [Q1 [Q2 [Q3 Q4]]]. cbv zeta in Q1, Q2, Q3, Q4.
+      destruct (rimg_fields (fst p) (snd p) (EI (snd p))) as [F1 [F2 [F3 [F4 [F5 F6]]]]].
       unfold Fimg. rewrite Em.
       destruct Hc as [[Ht [Hp0 [Hg0 [Hv0 [Ht0 [Ha0 [Hr0 Hsz]]]]]]]|[Ht Hok]]; rewrite Ht.
-      + (* a plain top-level signal *)
-        rewrite Hk in Hsz. unfold proj_signal, membership, sig_size, timg, std_imp, img. rewrite Em, Ht.
-        rewrite !abs_start_top by (try assumption; reflexivity).
-        unfold dsig_e. rewrite Hk.
-        cbn [s_kind s_name s_rel s_parent s_groups s_size s_signed s_scale s_offset s_min s_max s_unit s_desc s_startval s_sendtype s_attrs place
-             dsig_of ds_name ds_size ds_signed ds_factor ds_offset ds_min ds_max ds_unit].
-        rewrite ?Hk, ?Hp0, ?Hv0, ?Ht0, ?Ha0, ?clear_spaces_idem, ?u32_id by lia.
-        rewrite Hd. reflexivity.
+      + (* a top-level signal beside the multiplexer *)
+        unfold proj_signal, membership. rewrite !abs_start_top by (try assumption; reflexivity).
+        unfold timg. rewrite ProofsLayout.sig_size_place.
+        cbn [s_kind s_name s_rel s_parent s_groups s_signed s_scale s_offset s_min s_max s_unit s_enum s_desc s_startval s_sendtype s_attrs place].
+        fold (rim EI p). unfold rim. rewrite Q1, Q2, F2, F3, F4, F5, F6, Hp0, Hv0, Ht0, Ha0, clear_spaces_idem.
+        destruct (s_kind (snd p)) eqn:Ek; try (exfalso; apply Hk; reflexivity).
+        * destruct (Q3 eq_refl) as [A1 [A2 [A3 [A4 [A5 A6]]]]]. rewrite A1, A2, A3, A4, A5, A6. reflexivity.
+        * rewrite (Q4 eq_refl). reflexivity.
       + (* a multiplexed signal *)
-        destruct Hok as [_ [Hpar [[g [Hg Hgr]] [Hdesc [Hv0 [Ht0 [Ha0 [Hsz [Hr0 _]]]]]]]]].
+        destruct Hok as [_ [Hpar [[g [Hg Hgr]] [Hv0 [Ht0 [Ha0 _]]]]]].
         assert (Hgrp : grp (snd p) = g) by (unfold grp; rewrite Hg; reflexivity).
         destruct R_len as [k HRl]. destruct sigs_len as [k2 HSl].
         unfold proj_signal. rewrite HRl, HSl. cbn [abs_start].
-        unfold kimg at 1 2 3 4 5 6 7. cbn [s_parent place]. rewrite find_mx. rewrite Hpar.
+        unfold kimg. rewrite ProofsLayout.sig_size_place.
+        cbn [s_kind s_name s_rel s_parent s_groups s_signed s_scale s_offset s_min s_max s_unit s_enum s_desc s_startval s_sendtype s_attrs place].
+        rewrite find_mx. rewrite Hpar.
         rewrite (ProofsIds.find_sig_unique sigs mx Hids Hmx).
         rewrite !abs_start_top by (try reflexivity; apply (proj1 (mx_top es m mx names Hmm Hmx Hmxm))).
-        unfold membership. cbn [s_parent s_groups kimg place]. rewrite Hpar, Hg, Hgrp.
-        unfold sig_size, kimg, std_imp, img. rewrite Em, Ht.
-        cbn [s_kind s_name s_rel s_parent s_groups s_size s_signed s_scale s_offset s_min s_max s_unit s_desc s_startval s_sendtype s_attrs place
-             child_dsig ds_name ds_size ds_signed ds_factor ds_offset ds_min ds_max ds_unit mx_img].
-        rewrite ?selw_img, ?Hk, ?Hv0, ?Ht0, ?Ha0, ?clear_spaces_idem, ?u32_id by lia.
-        rewrite ?find_mx. cbn [s_name mx_img]. rewrite ?clear_spaces_idem.
-        rewrite Hd. reflexivity.
+        unfold membership. cbn [s_parent s_groups place]. rewrite Hpar, Hg, Hgrp.
+        fold (rim EI p). unfold rim. rewrite Q1, Q2, F2, F3, F4, F5, F6, Hv0, Ht0, Ha0, selw_img, clear_spaces_idem.
+        cbn [s_name s_rel mx_img]. rewrite clear_spaces_idem.
+        destruct (s_kind (snd p)) eqn:Ek; try (exfalso; apply Hk; reflexivity).
+        * destruct (Q3 eq_refl) as [A1 [A2 [A3 [A4 [A5 A6]]]]]. rewrite A1, A2, A3, A4, A5, A6. reflexivity.
+        * rewrite (Q4 eq_refl). reflexivity.
   Qed.
 
   Lemma proj_sigs_mux :
@@ -1512,23 +1736,28 @@ Proof.
 Qed.
 
 (* ---------------- any message of the fragment ---------------- *)
-Definition Rmsg_m (es : list enum_def) (env : ienv) (st : istate) (m m' : message) : Prop :=
+Definition Rmsg_m (es : list enum_def) (st : istate) (m m' : message) : Prop :=
   ((forall s, In s (m_signals m) -> is_muxb s = false) /\ Rmsg es st m m') \/
-  (exists mx mid gs S', In mx (m_signals m) /\ is_muxb mx = true /\
+  (exists mx mid gs S' EI, In mx (m_signals m) /\ is_muxb mx = true /\
      m' = mkmessage (m_canid m) (clear (m_name m)) (m_size m) (m_order m) 0 0 0 0 (clear (m_sender m)) (recs_in m) (m_desc m) []
-                    (mux_result es env m mx mid gs S') /\
-     Permutation (m_signals m) S' /\ In (mid, mx) (index_from 0 S') /\ 1 <= gs).
+                    (mux_result mx mid gs EI S') /\
+     Permutation (m_signals m) S' /\ In (mid, mx) (index_from 0 S') /\ 1 <= gs /\
+     (forall s, In s (m_signals m) -> s <> mx -> EIok es st s (EI s))).
 
-Lemma Rmsg_m_mono : forall es env st st' m m', ProofsEnum.st_le st st' -> Rmsg_m es env st m m' -> Rmsg_m es env st' m m'.
-Proof. intros es env st st' m m' Hle [[H1 H2]|H]; [left; split; [assumption|eapply Rmsg_mono; eauto]|right; exact H]. Qed.
-
-Lemma Rmsg_m_head : forall es env st m m', Rmsg_m es env st m m' ->
-  m_canid m' = m_canid m /\ m_sender m' = clear (m_sender m) /\ m_name m' = clear (m_name m).
+Lemma Rmsg_m_mono : forall es st st' m m', ProofsEnum.st_le st st' -> Rmsg_m es st m m' -> Rmsg_m es st' m m'.
 Proof.
-  intros es env st m m' [[_ [sg [-> _]]]|[mx [mid [gs [S' [_ [_ [-> _]]]]]]]]; cbn; auto.
+  intros es st st' m m' Hle [[H1 H2]|[mx [mid [gs [S' [EI [A1 [A2 [A3 [A4 [A5 [A6 A7]]]]]]]]]]]].
+  - left. split; [assumption|eapply Rmsg_mono; eauto].
+  - right. exists mx, mid, gs, S', EI. refine (conj A1 (conj A2 (conj A3 (conj A4 (conj A5 (conj A6 _)))))). intros x Hx Hne. eapply EIok_mono; eauto.
 Qed.
 
-(* where the importer's signal map sends the signals of a message *)
+Lemma Rmsg_m_head : forall es st m m', Rmsg_m es st m m' ->
+  m_canid m' = m_canid m /\ m_sender m' = clear (m_sender m) /\ m_name m' = clear (m_name m).
+Proof.
+  intros es st m m' [[_ [sg [-> _]]]|[mx [mid [gs [S' [EI [_ [_ [-> _]]]]]]]]]; cbn; auto.
+Qed.
+
+(* the signal map after the import of a message: every signal is found, under its sanitised name, at its position *)
 Definition sm_rel (sm : list (key * (nat * Z))) (p : nat) (m m' : message) : Prop :=
   forall s, In s (m_signals m) -> exists s', In s' (m_signals m') /\ s_name s' = clear (s_name s) /\
     lookup key_eqb (u32 (m_canid m), clear (s_name s)) sm = Some (p, s_id s').
@@ -1545,8 +1774,9 @@ Lemma import_message_m : forall es env st0 names nodes st done m,
   (forall r, In r names -> clear r <> dummy_node) ->
   ~ In (m_canid m) (map m_canid done) ->
   ~ In (clear (m_sender m), clear (m_name m)) (map (fun x => (m_sender x, m_name x)) done) ->
-  exists st' m', import_message env (st, done) nodes (dmsg_m es m) = Ok (st', done ++ [m']) /\
-    Inv st' /\ ProofsEnum.st_le st st' /\ Rmsg_m es env st' m m' /\
+  exists st' m',
+    import_message env (st, done) nodes (dmsg_m es m) = Ok (st', done ++ [m']) /\
+    Inv st' /\ ProofsEnum.st_le st st' /\ Rmsg_m es st' m m' /\
     sm_rel (is_sigmap st') (length done) m m' /\
     (forall k, (forall s, In s (m_signals m) -> k <> (u32 (m_canid m), clear (s_name s))) -> lookup key_eqb k (is_sigmap st') = lookup key_eqb k (is_sigmap st)).
 Proof.
@@ -1554,32 +1784,24 @@ Proof.
   destruct (existsb is_muxb (m_signals m)) eqn:Ex.
   - (* a multiplexer *)
     apply existsb_exists in Ex. destruct Ex as [mx [Hmx Hmxm]].
-    pose proof Hmm as [_ [_ [_ [_ [_ [_ [_ [[_ [_ [_ [_ [_ [_ Hstd]]]]]] _]]]]]]]].
     destruct Henv as [Hmd Hsig].
-    assert (Henv1 : forall s, In s (m_signals m) -> is_muxb s = false ->
-              lookup key_eqb (u32 (m_canid m), clear (s_name s)) (ie_sig_enums env) = None /\
-              desc_of key_eqb (u32 (m_canid m), clear (s_name s)) (ie_sig_desc env) = s_desc s).
-    { intros s Hs Hnm. destruct (Hsig s Hs) as [[Hd Hl] _]. rewrite (Hstd mx s Hmx Hmxm Hs Hnm) in Hl. auto. }
+    assert (Henv1 : forall s, In s (m_signals m) -> is_muxb s = false -> env_sig es env st0 (u32 (m_canid m)) s /\ enum_wf (e_of es s))
+      by (intros s Hs _; apply Hsig; assumption).
     assert (Henvx : desc_of key_eqb (u32 (m_canid m), clear (s_name mx)) (ie_sig_desc env) = s_desc mx)
       by (destruct (Hsig mx Hmx) as [[Hd _] _]; exact Hd).
-    destruct (import_message_mux es env names nodes st done m mx Hmm Hmx Hmxm Henv1 Henvx Hext Hmd Hnodes Hnd Hcan Hpair)
-      as [st' [S' [mid [gs [E [Hp [Hmid [Hgs [He1 [He2 [Hsm1 Hsm2]]]]]]]]]]].
-    exists st'. eexists. split; [exact E|]. destruct HI as [I1 [I2 I3]].
-    split; [|split; [|split; [|split]]].
-    + unfold Inv, ProofsEnum.refs_valid. rewrite He1, He2. auto.
-    + apply ProofsLayout.st_le_same; assumption.
-    + right. exists mx, mid, gs, S'. repeat split; try assumption; lia.
+    destruct (import_message_mux es env st0 names nodes st done m mx Hmm Hmx Hmxm Henv1 Henvx Hext Hrv0 HI Hle Hmd Hnodes Hnd Hcan Hpair)
+      as [st' [S' [mid [gs [EI [E [Hp [Hmid [Hgs [HI' [Hle' [HEI [Hsm1 Hsm2]]]]]]]]]]]]].
+    exists st'. eexists. split; [exact E|].
+    split; [exact HI'|]. split; [exact Hle'|]. split; [|split].
+    + right. exists mx, mid, gs, S', EI. refine (conj Hmx (conj Hmxm (conj eq_refl (conj Hp (conj Hmid (conj _ HEI)))))). lia.
     + intros s Hs. assert (HsS : In s S') by (eapply Permutation_in; eauto).
       destruct (in_index_from S' 0 s HsS) as [i Hi]. specialize (Hsm1 (i, s) Hi). cbn [fst snd] in Hsm1.
       cbn [m_signals].
-      exists (Fimg es env m mx mid gs (i, s)). split.
-      * fold (mux_result es env m mx mid gs S'). rewrite (R_map es env names m mx mid gs S' Hmm Hmx Hmxm Hp).
+      exists (Fimg mx mid gs EI (i, s)). split.
+      * rewrite (R_map es names m mx mid gs EI S' Hmm Hmx Hmxm Hp).
         apply in_map. eapply Permutation_in; [apply (XY_perm es names m mx mid S' Hmm Hmx Hmxm Hp Hmid)|exact Hi].
-      * rewrite (Fimg_id es env m mx mid gs (i, s)). cbn [fst]. split; [|exact Hsm1].
-        unfold Fimg. cbn [snd fst]. destruct (is_muxb s) eqn:Em.
-        -- assert (s = mx) by (destruct Hmm as [_ [_ [_ [_ [_ [_ [_ [[_ [_ [_ [Hu _]]]] _]]]]]]]]; apply Hu; assumption). subst s. reflexivity.
-        -- assert (Hne : s <> mx) by (intros ->; congruence).
-           destruct (is_topb s); cbn [s_name timg kimg place std_imp]; apply (img_fields es env m mx names Hmm Hmx Hmxm Henv1 s Hs Hne).
+      * rewrite (Fimg_id mx mid gs EI (i, s)). cbn [fst]. split; [|exact Hsm1].
+        apply (Fimg_facts es names m mx mid gs EI S' Hmm Hmx Hmxm Hp (i, s) Hi).
     + exact Hsm2.
   - (* none *)
     assert (Hnm : forall s, In s (m_signals m) -> is_muxb s = false).
@@ -1609,7 +1831,7 @@ Lemma import_messages_m : forall es env st0 names nodes l st done,
   NoDup (map (fun x => (m_sender x, m_name x)) done ++ map (fun m => (clear (m_sender m), clear (m_name m))) l) ->
   exists st' msgs',
     fold_left (fun acc dm => do a <- acc; import_message env a nodes dm) (map (dmsg_m es) l) (Ok (st, done))
-    = Ok (st', done ++ msgs') /\ Inv st' /\ ProofsEnum.st_le st st' /\ Forall2 (Rmsg_m es env st') l msgs' /\
+    = Ok (st', done ++ msgs') /\ Inv st' /\ ProofsEnum.st_le st st' /\ Forall2 (Rmsg_m es st') l msgs' /\
     SMs (is_sigmap st') (length done) l msgs' /\
     (forall k, (forall m s, In m l -> In s (m_signals m) -> k <> (u32 (m_canid m), clear (s_name s))) ->
        lookup key_eqb k (is_sigmap st') = lookup key_eqb k (is_sigmap st)).
@@ -1621,7 +1843,7 @@ Proof.
       as [st1 [m' [E1 [HI1 [Hle1 [HR [HS1 HS2]]]]]]].
     + cbn [map] in Hc. apply NoDup_remove_2 in Hc. intros Hin. apply Hc. apply in_or_app. left. assumption.
     + cbn [map] in Hq. apply NoDup_remove_2 in Hq. intros Hin. apply Hq. apply in_or_app. left. assumption.
-    + rewrite E1. destruct (Rmsg_m_head _ _ _ _ _ HR) as [K1 [K2 K3]].
+    + rewrite E1. destruct (Rmsg_m_head _ _ _ _ HR) as [K1 [K2 K3]].
       assert (Hkeys : forall x s s', In x r -> (u32 (m_canid m), clear (s_name s)) <> (u32 (m_canid x), clear (s_name s'))).
       { intros x s s' Hx Heq. inversion Heq as [[Hq1 Hq2]].
         rewrite Forall_forall in Hpr. destruct Hpm as [_ [_ [_ [_ [_ [Hid _]]]]]]. destruct (Hpr x Hx) as [_ [_ [_ [_ [_ [Hidx _]]]]]].
@@ -1644,29 +1866,21 @@ Proof.
 Qed.
 
 (* ---------------- projection of any message of the fragment ---------------- *)
-Lemma proj_message_m : forall names es env st m m',
+Lemma proj_message_m : forall names es st m m',
   mmessage es names m -> (forall s, In s (m_signals m) -> enum_wf (e_of es s)) ->
-  (forall s, In s (m_signals m) ->
-     desc_of key_eqb (u32 (m_canid m), clear (s_name s)) (ie_sig_desc env) = s_desc s /\
-     (s_kind s = KStandard -> lookup key_eqb (u32 (m_canid m), clear (s_name s)) (ie_sig_enums env) = None)) ->
-  Rmsg_m es env st m m' -> proj_message (is_enums st) m' = proj_message es m.
+  Rmsg_m es st m m' -> proj_message (is_enums st) m' = proj_message es m.
 Proof.
-  intros names es env st m m' Hmm Hwf Henv [[Hnm HR]|[mx [mid [gs [S' [Hmx [Hmxm [-> [HpS [Hmid Hgs]]]]]]]]]].
+  intros names es st m m' Hmm Hwf [[Hnm HR]|[mx [mid [gs [S' [EI [Hmx [Hmxm [-> [HpS [Hmid [Hgs HEI]]]]]]]]]]]].
   - destruct (mmessage_plain es names m Hmm Hnm) as [Hem _]. eapply proj_message_e; eauto.
   - pose proof Hmm as [Ha [Hc [Hdl [Hsd [Hst [Hid [Hsz [Hms [Hlay [Hsn [Hrc [Hrn Hre]]]]]]]]]]]].
-    pose proof Hms as [_ [_ [_ [_ [_ [_ Hstd]]]]]].
-    assert (Henv1 : forall s, In s (m_signals m) -> is_muxb s = false ->
-              lookup key_eqb (u32 (m_canid m), clear (s_name s)) (ie_sig_enums env) = None /\
-              desc_of key_eqb (u32 (m_canid m), clear (s_name s)) (ie_sig_desc env) = s_desc s).
-    { intros s Hs Hn. destruct (Henv s Hs) as [Hd Hl]. split; [apply Hl; exact (Hstd mx s Hmx Hmxm Hs Hn)|exact Hd]. }
     unfold proj_message.
     cbn [m_canid m_name m_size m_order m_cycle m_delay m_startdelay m_sendtype m_sender m_receivers m_desc m_attrs m_signals].
     rewrite Ha, Hc, Hdl, Hsd, Hst, !clear_spaces_idem.
-    rewrite (proj_sigs_mux es env names m mx mid gs S' Hmm Hmx Hmxm Henv1 HpS Hmid (is_enums st)).
+    rewrite (proj_sigs_mux es st names m mx mid gs EI S' Hmm Hmx Hmxm Hwf HEI HpS Hmid).
     assert (Hne : m_signals m <> []) by (intros E; rewrite E in Hmx; destruct Hmx).
-    assert (Hr : mux_result es env m mx mid gs S' <> []).
+    assert (Hr : mux_result mx mid gs EI S' <> []).
     { unfold mux_result. intros E. apply app_eq_nil in E. destruct E as [_ E]. discriminate E. }
-    destruct (mux_result es env m mx mid gs S') eqn:ER; [contradiction|].
+    destruct (mux_result mx mid gs EI S') eqn:ER; [contradiction|].
     destruct (m_signals m) eqn:ES; [contradiction|].
     assert (Hrecs : sort_by str_ltb (map clear (recs_in m)) = sort_by str_ltb (map clear (m_receivers m))).
     { unfold recs_in. rewrite ES.
@@ -1675,70 +1889,41 @@ Proof.
     rewrite Hrecs. reflexivity.
 Qed.
 
-(* ---------------- the theorem ---------------- *)
-Theorem export_import_mux_thm : forall b, mbus b ->
-  exists b', export_import b = Ok b' /\ proj_bus b' = proj_bus b.
+(* ---------------- the bus with its signals in export order ---------------- *)
+Lemma S0_SX : forall es names m mx, mmessage es names m -> In mx (m_signals m) -> is_muxb mx = true -> S0 m mx = SX m.
 Proof.
-  intros b Hb. pose proof Hb as [Ha [Hn [Hnn [Hdm [Hlen [Hm [Hcan [Hpair [Hg Hes]]]]]]]]].
-  pose proof (mbus_keyed b Hb) as Hkb.
-  destruct (export_m b Hb) as [L HE]. unfold export_import. rewrite HE.
-  unfold text_roundtrip, mdoc. cbn [d_filename d_nodes d_valtables d_messages d_comments d_attrs d_attrdefs d_attrvals d_valencs d_extmuxes map].
-  unfold import. cbn [d_filename d_nodes d_valtables d_messages d_comments d_attrs d_attrdefs d_attrvals d_valencs d_extmuxes].
-  rewrite import_comments_spec, (gdesc_doc b Hkb).
-  destruct (tables_ok (b_enums b) L [] Hes) as [reg [T1 T2]]. cbn [app] in T1. rewrite T1. cbn [bind].
-  destruct (valencs_ok (length reg) (bus_vencs b) reg []) as [new [se' [V1 V2]]].
-  { apply Forall_forall. intros ve Hin. apply in_bus_vencs in Hin. destruct Hin as [m [s [_ [_ [_ ->]]]]].
-    cbn [ve_values]. apply evals_ok. apply enum_wf_nth. assumption. }
-  rewrite V1. cbn [bind fst snd import_ext_muxes fold_left].
-  rewrite import_nodes_ok; [|assumption|assumption|assumption|intros n Hin; apply (node_desc_ok b Hkb); assumption].
-  cbn [bind].
-  set (nd := rev (npairs (doc_cms b))). set (md := rev (mpairs (doc_cms b))). set (sd := rev (spairs (doc_cms b))).
-  set (env := mkienv nd md sd se' []).
-  set (st0 := mkistate (reg ++ new) [] []).
-  set (nodes' := mk_nodes 0 (b_nodes b) ++ [mknode dummy_node 1024 EmptyString []]).
-  assert (Hnames' : map n_name nodes' = map (fun n => clear (n_name n)) (b_nodes b) ++ [dummy_node]).
-  { unfold nodes'. rewrite map_app, mk_nodes_names. reflexivity. }
-  assert (HI0 : Inv st0).
-  { assert (Hall : forall i, 0 <= i < Z.of_nat (length (reg ++ new)) -> fresh (nth_enum (reg ++ new) i)).
-    { intros i Hi. assert (HF : Forall fresh (reg ++ new)) by (apply Forall_app; split; assumption).
-      rewrite Forall_forall in HF. apply HF. unfold nth_enum. apply nth_In. lia. }
-    split; [intros r []|]. split; intros i Hi; cbn [is_enums st0] in *; [apply (Hall i Hi)|intros _; apply (Hall i Hi)]. }
-  assert (Hwf : forall x, enum_wf (e_of (b_enums b) x)) by (intros x; apply enum_wf_nth; assumption).
-  assert (Henvm : forall m, In m (b_messages b) -> env_msg (b_enums b) env st0 m).
-  { intros m Hin. split.
-    - cbn [ie_msg_desc env]. apply (msg_desc_ok b Hkb). assumption.
-    - intros s Hs. split; [|apply Hwf]. apply (env_sig_m b (length reg) reg (reg ++ new) se' md nd Hkb Hes V1 m s Hin Hs). }
-  destruct (import_messages_m (b_enums b) env st0 (map n_name (b_nodes b)) nodes' (b_messages b) st0 [])
-    as [st' [msgs' [F1 [F2 [F3 [F4 _]]]]]]; try assumption; try reflexivity.
-  - intros r [].
-  - apply ProofsEnum.st_le_refl.
-  - intros r Hr. rewrite Hnames'. apply in_or_app. left. apply in_map_iff in Hr. destruct Hr as [n [Hr Hin]]. subst r.
-    apply in_map_iff. exists n. auto.
-  - intros r Hr Heq. apply Hdm. apply in_map_iff in Hr. destruct Hr as [n [Hr Hin]]. subst r.
-    rewrite <- Heq. apply in_map_iff. exists n. auto.
-  - cbn [app] in F1. subst env.
-    assert (Hnos : existsb (fun m => String.eqb (m_sender m) dummy_node) msgs' = false).
-    { destruct (existsb _ _) eqn:E; [|reflexivity]. apply existsb_exists in E. destruct E as [x [Hx He]].
-      destruct (Forall2_in_r _ _ _ _ F4 Hx) as [m [Hin HR]]. destruct (Rmsg_m_head _ _ _ _ _ HR) as [_ [Hs _]]. rewrite Hs in He.
-      apply String.eqb_eq in He. exfalso. apply Hdm.
-      rewrite Forall_forall in Hm. destruct (Hm m Hin) as [_ [_ [_ [_ [_ [_ [_ [_ [_ [Hsn _]]]]]]]]]].
-      apply in_map_iff in Hsn. destruct Hsn as [n [Hs' Hn']]. rewrite <- He, <- Hs'. apply in_map_iff. exists n. auto. }
-    exists (mkbus (b_name b) (b_desc b) [] (mk_nodes 0 (b_nodes b)) (is_enums st') msgs'). split.
-    { match goal with |- bind ?x ?k = _ => replace x with (@Ok (istate * list message) (st', msgs')) by (symmetry; exact F1) end.
-      cbn [bind app].
-      unfold import_attributes. cbn [d_attrdefs d_attrs d_attrvals fold_left bind].
-      cbn [b_messages b_nodes set_b_nodes]. rewrite Hnos.
-      unfold nodes'. rewrite filter_app, mk_nodes_not_dummy by assumption. cbn [filter String.eqb negb app]. rewrite app_nil_r.
-      reflexivity. }
-    unfold proj_bus. cbn [b_desc b_attrs b_nodes b_enums b_messages]. rewrite Ha.
-    f_equal.
-    + clear - Hn. revert Hn. generalize 0. generalize (b_nodes b). induction l as [|n r IH]; intros i Hf; cbn [map mk_nodes]; [reflexivity|].
-      inversion Hf as [|? ? Hna Hr]; subst. rewrite IH by assumption. f_equal.
-      unfold proj_node. cbn [n_name n_desc n_attrs]. rewrite Hna, clear_spaces_idem. reflexivity.
-    + f_equal. eapply (Forall2_map_eq (Rmsg_m (b_enums b) (mkienv nd md sd se' []) st')); [exact F4|].
-      intros m m' Hin HR. rewrite Forall_forall in Hm. eapply (proj_message_m (map n_name (b_nodes b))); [apply Hm; assumption|intros; apply Hwf| |exact HR].
-      intros s Hs. destruct (Henvm m Hin) as [_ Hsig]. destruct (Hsig s Hs) as [[Hd Hl] _]. split; [exact Hd|].
-      intros Hk. rewrite Hk in Hl. exact Hl.
+  intros es names m mx Hmm Hmx Hmxm. unfold S0, SX, tx. apply flat_map_ext_in_simple. intros t Ht. apply filter_In in Ht. destruct Ht as [Ht _].
+  destruct (is_muxb t) eqn:E; [|reflexivity].
+  destruct Hmm as [_ [_ [_ [_ [_ [_ [_ [[_ [_ [_ [Hu _]]]] _]]]]]]]]. rewrite (Hu t mx Ht Hmx E Hmxm). reflexivity.
+Qed.
+
+Lemma SX_perm : forall es names m, mmessage es names m -> Permutation (m_signals m) (SX m).
+Proof.
+  intros es names m Hmm. destruct (existsb is_muxb (m_signals m)) eqn:Ex.
+  - apply existsb_exists in Ex. destruct Ex as [mx [Hmx Hm]]. rewrite <- (S0_SX es names m mx Hmm Hmx Hm). apply (S0_perm es m mx names Hmm Hmx Hm).
+  - assert (Hnm : forall s, In s (m_signals m) -> is_muxb s = false).
+    { intros s Hs. destruct (is_muxb s) eqn:E; [|reflexivity]. assert (existsb is_muxb (m_signals m) = true) by (apply existsb_exists; eauto). congruence. }
+    pose proof Hmm as [_ [_ [_ [_ [_ [_ [_ [[_ [_ [_ [_ [Hch _]]]]] _]]]]]]]].
+    assert (Hall : filter is_topb (m_signals m) = m_signals m).
+    { apply filter_all. intros s Hs. destruct (is_topb s) eqn:Et; [reflexivity|]. exfalso.
+      destruct (Hch s Hs Et) as [mx [Hmx [_ [Hm _]]]]. rewrite (Hnm mx Hmx) in Hm. discriminate. }
+    unfold SX. rewrite Hall.
+    assert (G : forall l, (forall s, In s l -> is_muxb s = false) -> flat_map (tx (m_signals m)) l = l).
+    { induction l as [|t r IH]; intros Hl; [reflexivity|]. cbn [flat_map]. unfold tx at 1. rewrite (Hl t (or_introl eq_refl)), IH by (intros x Hx; apply Hl; right; assumption). reflexivity. }
+    rewrite G by assumption. apply Permutation_refl.
+Qed.
+
+Lemma xbus_keyed : forall b, mbus b -> keyed_bus (xbus b).
+Proof.
+  intros b Hb. pose proof (mbus_keyed b Hb) as [K1 [K2 [K3 K4]]]. pose proof Hb as [_ [_ [_ [_ [_ [Hms _]]]]]].
+  unfold xbus. split; [|split; [|split]]; cbn [b_nodes b_messages set_b_messages].
+  - rewrite (flat_map_ext_in_simple _ (fun n => map xmsg (filter (fun m => String.eqb (m_sender m) (n_name n)) (b_messages b)))) by (intros n _; apply filter_xmsg).
+    rewrite <- (map_flat_map xmsg (fun n => filter (fun m => String.eqb (m_sender m) (n_name n)) (b_messages b)) (b_nodes b)). rewrite K1. reflexivity.
+  - exact K2.
+  - rewrite map_map. exact K3.
+  - intros xm Hxm. apply in_map_iff in Hxm. destruct Hxm as [m [<- Hm]]. destruct (K4 m Hm) as [Hid Hn]. split; [exact Hid|].
+    cbn [m_signals xmsg set_m_signals]. rewrite Forall_forall in Hms.
+    eapply Permutation_NoDup; [apply Permutation_map; apply (SX_perm _ _ m (Hms m Hm))|exact Hn].
 Qed.
 
 (* ---------------- the structural part of the import for any document that carries the exported structure
@@ -1746,30 +1931,28 @@ Qed.
 Lemma import_struct_m : forall b L d, mbus b ->
   d_filename d = b_name b -> d_nodes d = map (fun n => clear (n_name n)) (b_nodes b) ->
   d_valtables d = map (table_of (b_enums b)) L -> d_messages d = map (dmsg_m (b_enums b)) (b_messages b) ->
-  d_comments d = doc_cms b -> d_valencs d = bus_vencs b -> d_extmuxes d = [] ->
-  exists st' msgs' env,
+  d_comments d = doc_cms (xbus b) -> d_valencs d = bus_vencs (xbus b) -> d_extmuxes d = [] ->
+  exists st' msgs',
     import d = (do b1 <- import_attributes (is_sigmap st') d
                            (mkbus (b_name b) (b_desc b) []
                                   (mk_nodes 0 (b_nodes b) ++ [mknode dummy_node 1024 EmptyString []]) (is_enums st') msgs');
                 finish b1) /\
-    Forall2 (Rmsg_m (b_enums b) env st') (b_messages b) msgs' /\
-    SMs (is_sigmap st') 0 (b_messages b) msgs' /\
-    (forall m s, In m (b_messages b) -> In s (m_signals m) ->
-       desc_of key_eqb (u32 (m_canid m), clear (s_name s)) (ie_sig_desc env) = s_desc s /\
-       (s_kind s = KStandard -> lookup key_eqb (u32 (m_canid m), clear (s_name s)) (ie_sig_enums env) = None)).
+    Forall2 (Rmsg_m (b_enums b) st') (b_messages b) msgs' /\
+    SMs (is_sigmap st') 0 (b_messages b) msgs'.
 Proof.
   intros b L d Hb D1 D2 D3 D4 D5 D6 D7. pose proof Hb as [Ha [Hn [Hnn [Hdm [Hlen [Hm [Hcan [Hpair [Hg Hes]]]]]]]]].
-  pose proof (mbus_keyed b Hb) as Hkb.
+  pose proof (xbus_keyed b Hb) as Hkx.
   unfold import. rewrite D1, D2, D3, D4, D5, D6, D7.
-  rewrite import_comments_spec, (gdesc_doc b Hkb).
+  rewrite import_comments_spec, (gdesc_doc (xbus b) Hkx).
   destruct (tables_ok (b_enums b) L [] Hes) as [reg [T1 T2]]. cbn [app] in T1. rewrite T1. cbn [bind].
-  destruct (valencs_ok (length reg) (bus_vencs b) reg []) as [new [se' [V1 V2]]].
+  destruct (valencs_ok (length reg) (bus_vencs (xbus b)) reg []) as [new [se' [V1 V2]]].
   { apply Forall_forall. intros ve Hin. apply in_bus_vencs in Hin. destruct Hin as [m [s [_ [_ [_ ->]]]]].
     cbn [ve_values]. apply evals_ok. apply enum_wf_nth. assumption. }
   rewrite V1. cbn [bind fst snd import_ext_muxes fold_left].
-  rewrite import_nodes_ok; [|assumption|assumption|assumption|intros n Hin; apply (node_desc_ok b Hkb); assumption].
+  change (b_desc (xbus b)) with (b_desc b).
+  rewrite import_nodes_ok; [|assumption|assumption|assumption|intros n Hin; apply (node_desc_ok (xbus b) Hkx); assumption].
   cbn [bind].
-  set (nd := rev (npairs (doc_cms b))). set (md := rev (mpairs (doc_cms b))). set (sd := rev (spairs (doc_cms b))).
+  set (nd := rev (npairs (doc_cms (xbus b)))). set (md := rev (mpairs (doc_cms (xbus b)))). set (sd := rev (spairs (doc_cms (xbus b)))).
   set (st0 := mkistate (reg ++ new) [] []).
   set (nodes' := mk_nodes 0 (b_nodes b) ++ [mknode dummy_node 1024 EmptyString []]).
   assert (Hnames' : map n_name nodes' = map (fun n => clear (n_name n)) (b_nodes b) ++ [dummy_node]).
@@ -1781,9 +1964,12 @@ Proof.
     split; [intros r []|]. split; intros i Hi; cbn [is_enums st0] in *; [apply (Hall i Hi)|intros _; apply (Hall i Hi)]. }
   assert (Hwf : forall x, enum_wf (e_of (b_enums b) x)) by (intros x; apply enum_wf_nth; assumption).
   assert (Henvm : forall m, In m (b_messages b) -> env_msg (b_enums b) (mkienv nd md sd se' []) st0 m).
-  { intros m Hin. split.
-    - cbn [ie_msg_desc]. apply (msg_desc_ok b Hkb). assumption.
-    - intros s Hs. split; [|apply Hwf]. apply (env_sig_m b (length reg) reg (reg ++ new) se' md nd Hkb Hes V1 m s Hin Hs). }
+  { intros m Hin. assert (Hxin : In (xmsg m) (b_messages (xbus b))) by (apply in_map; assumption). split.
+    - cbn [ie_msg_desc]. apply (msg_desc_ok (xbus b) Hkx (xmsg m) Hxin).
+    - intros s Hs. split; [|apply Hwf].
+      assert (Hsx : In s (m_signals (xmsg m))).
+      { cbn [m_signals xmsg set_m_signals]. rewrite Forall_forall in Hm. eapply Permutation_in; [apply (SX_perm _ _ m (Hm m Hin))|exact Hs]. }
+      apply (env_sig_m (xbus b) (length reg) reg (reg ++ new) se' md nd Hkx Hes V1 (xmsg m) s Hxin Hsx). }
   destruct (import_messages_m (b_enums b) (mkienv nd md sd se' []) st0 (map n_name (b_nodes b)) nodes' (b_messages b) st0 [])
     as [st' [msgs' [F1 [F2 [F3 [F4 [F5 F6]]]]]]]; try assumption; try reflexivity.
   - intros r [].
@@ -1792,11 +1978,39 @@ Proof.
     apply in_map_iff. exists n. auto.
   - intros r Hr Heq. apply Hdm. apply in_map_iff in Hr. destruct Hr as [n [Hr Hin]]. subst r.
     rewrite <- Heq. apply in_map_iff. exists n. auto.
-  - cbn [app] in F1. exists st', msgs', (mkienv nd md sd se' []). split; [|split; [exact F4|split; [exact F5|]]].
-    + match goal with |- bind ?x ?k = _ => replace x with (@Ok (istate * list message) (st', msgs')) by (symmetry; exact F1) end.
-      cbn [bind]. reflexivity.
-    + intros m s Hin Hs. destruct (Henvm m Hin) as [_ Hsig]. destruct (Hsig s Hs) as [[Hd Hl] _]. split; [exact Hd|].
-      intros Hk. rewrite Hk in Hl. exact Hl.
+  - cbn [app] in F1. exists st', msgs'. split; [|split; [exact F4|exact F5]].
+    match goal with |- bind ?x ?k = _ => replace x with (@Ok (istate * list message) (st', msgs')) by (symmetry; exact F1) end.
+    cbn [bind]. reflexivity.
+Qed.
+
+(* ---------------- the theorem ---------------- *)
+Theorem export_import_mux_thm : forall b, mbus b ->
+  exists b', export_import b = Ok b' /\ proj_bus b' = proj_bus b.
+Proof.
+  intros b Hb. pose proof Hb as [Ha [Hn [Hnn [Hdm [Hlen [Hm [Hcan [Hpair [Hg Hes]]]]]]]]].
+  destruct (export_m b Hb) as [L HE]. unfold export_import. rewrite HE.
+  set (d := text_roundtrip (mdoc b L)).
+  assert (D2 : d_nodes d = map (fun n => clear (n_name n)) (b_nodes b)) by reflexivity.
+  destruct (import_struct_m b L d Hb eq_refl D2 eq_refl eq_refl eq_refl eq_refl eq_refl) as [st' [msgs' [HI [HF HS]]]].
+  assert (Hwf : forall x, enum_wf (e_of (b_enums b) x)) by (intros x; apply enum_wf_nth; assumption).
+  assert (Hnos : existsb (fun m => String.eqb (m_sender m) dummy_node) msgs' = false).
+  { destruct (existsb _ _) eqn:E; [|reflexivity]. apply existsb_exists in E. destruct E as [x [Hx He]].
+    destruct (Forall2_in_r _ _ _ _ HF Hx) as [m [Hin HR]]. destruct (Rmsg_m_head _ _ _ _ HR) as [_ [Hs _]]. rewrite Hs in He.
+    apply String.eqb_eq in He. exfalso. apply Hdm.
+    rewrite Forall_forall in Hm. destruct (Hm m Hin) as [_ [_ [_ [_ [_ [_ [_ [_ [_ [Hsn _]]]]]]]]]].
+    apply in_map_iff in Hsn. destruct Hsn as [n [Hs' Hn']]. rewrite <- He, <- Hs'. apply in_map_iff. exists n. auto. }
+  exists (mkbus (b_name b) (b_desc b) [] (mk_nodes 0 (b_nodes b)) (is_enums st') msgs'). split.
+  { rewrite HI. unfold import_attributes. cbn [d_attrdefs d_attrs d_attrvals fold_left bind d text_roundtrip mdoc map].
+    unfold finish. cbn [b_messages b_nodes set_b_nodes]. rewrite Hnos.
+    rewrite filter_app, mk_nodes_not_dummy by assumption. cbn [filter String.eqb negb app]. rewrite app_nil_r.
+    reflexivity. }
+  unfold proj_bus. cbn [b_desc b_attrs b_nodes b_enums b_messages]. rewrite Ha.
+  f_equal.
+  + clear - Hn. revert Hn. generalize 0. generalize (b_nodes b). induction l as [|n r IH]; intros i Hf; cbn [map mk_nodes]; [reflexivity|].
+    inversion Hf as [|? ? Hna Hr]; subst. rewrite IH by assumption. f_equal.
+    unfold proj_node. cbn [n_name n_desc n_attrs]. rewrite Hna, clear_spaces_idem. reflexivity.
+  + f_equal. eapply (Forall2_map_eq (Rmsg_m (b_enums b) st')); [exact HF|].
+    intros m m' Hin HR. rewrite Forall_forall in Hm. eapply (proj_message_m (map n_name (b_nodes b))); [apply Hm; assumption|intros; apply Hwf|exact HR].
 Qed.
 
 (* ------------------------------------------------------------------------------------------
@@ -1815,9 +2029,9 @@ Definition example_mux_bus : bus :=
         [ std_sig 0 "a" 0 8 None [] "first";
           mksignal 1 "mode sel" KMux 8 None [] 0 false fl_one fl_zero fl_zero fl_zero "" 0 4 16 "the switch" fl_zero 0 [];
           std_sig 2 "c0" 0 8 (Some 1) [0] "";
-          std_sig 3 "c1" 0 4 (Some 1) [1] "";
-          std_sig 4 "c 2" 4 12 (Some 1) [1] "";
-          std_sig 5 "z" 26 6 None [] "" ];
+          mksignal 3 "c1" KEnum 0 (Some 1) [1] 0 false fl_one fl_zero fl_zero fl_zero "" 0 0 0 "an enum child" fl_zero 0 [];
+          std_sig 4 "c 2" 4 12 (Some 1) [1] "a described child";
+          mksignal 5 "z" KEnum 26 None [] 0 false fl_one fl_zero fl_zero fl_zero "" 0 0 0 "an enum beside the switch" fl_zero 0 [] ];
       mkmessage 512 "other" 1 BigEndian 0 0 0 0 "GW" [] "second" []
         [ mksignal 0 "n" KEnum 0 None [] 0 false fl_one fl_zero fl_zero fl_zero "" 0 0 0 "" fl_zero 0 [] ] ].
 
@@ -1840,11 +2054,11 @@ Proof.
         split.
         { intros c Hc Ht. in_cases Hc; try (cbn in Ht; discriminate Ht);
             (eexists; split; [right; left; reflexivity|]; split; [reflexivity|]; split; [reflexivity|];
-             unfold child_ok, std_sig; cbn; repeat split; try reflexivity; try lia; eexists; split; [reflexivity|lia]). }
-        split.
+             unfold child_ok, std_sig; cbn [s_kind s_parent s_groups s_startval s_sendtype s_attrs s_size s_rel s_id s_gcount s_gsize];
+             refine (conj _ (conj eq_refl (conj (ex_intro _ _ (conj eq_refl _)) (conj eq_refl (conj eq_refl (conj eq_refl (conj _ (conj _ _))))))));
+             [discriminate|lia|intros Hc; first [lia|discriminate Hc]|lia|vm_compute; intros Hc; discriminate Hc]). }
         { intros c c' Hc Hc' Ht Ht' Hne Hg. in_cases Hc; in_cases Hc'; try (cbn in Ht; discriminate Ht); try (cbn in Ht'; discriminate Ht');
-            try contradiction; try (cbn in Hg; discriminate Hg); cbn; lia. }
-        { intros mx t Hmx Hmxm Ht Htm. in_cases Ht; try reflexivity; cbn in Htm; discriminate Htm. }
+            try contradiction; try (cbn in Hg; discriminate Hg); vm_compute; first [left; intros Hc; discriminate Hc|right; intros Hc; discriminate Hc]. }
       + cbn [filter is_topb std_sig s_parent]. cbn. repeat split; lia.
       + cbn; auto.
       + intros x Hx; cbn in Hx; cbn; intuition.
@@ -1857,8 +2071,7 @@ Proof.
         { cbn. repeat (apply Forall_cons; [unfold top_ok; cbn; repeat split; try reflexivity; try lia|]). apply Forall_nil. }
         split; [intros a b Ha Hb Hma Hmb; in_cases Ha; cbn in Hma; discriminate Hma|].
         split; [intros c Hc Ht; in_cases Hc; cbn in Ht; discriminate Ht|].
-        split; [intros c c' Hc Hc' Ht; in_cases Hc; cbn in Ht; discriminate Ht|].
-        intros mx t Hmx Hmxm; in_cases Hmx; cbn in Hmxm; discriminate Hmxm.
+        intros c c' Hc Hc' Ht; in_cases Hc; cbn in Ht; discriminate Ht.
       + cbn. repeat split; try lia.
       + cbn; auto.
       + intros x Hx; cbn in Hx; contradiction.
